@@ -22,2724 +22,46 @@ NUM_CONV = {"float", "int", "round", "float16", "float32", "float64", "half", "s
             "trunc", "floor", "ceil", "around", "round_", "rint"}
 
 
-# =========================================================================== writer model
 def floor(ctx, label, n, at_least, site):
-    """The anchored function exists but fewer sites than expected were recognised: the construct changed shape.
-    Reported as a finding (never a silent pass, never an analysis error)."""
+    """fewer sites than expected were recognised: the construct changed shape -> undecided (neither a pass nor an alarm)"""
     rule = label.split()[0]
     what = label[len(rule):].strip()
-    return ctx.check(n >= at_least, rule, site, f"{what}: construct not found ({n} site(s) recognised, at least {at_least} expected)",
-                     "the code this rule protects is no longer in a form the rule recognises; the reader/writer agreement it "
-                     "establishes cannot be confirmed", note=f"{what}: {n} site(s)")
-
-
-class WBlock:
-    """One `write` of a row of `mesh.<kind>` inside an exporter."""
-
-    def __init__(self, **kw):
-        self.__dict__.update(kw)
-
-
-def len_of_row(e, prov, at):
-    """kind if e is `len(<row>)`."""
-    if isinstance(e, ast.Call) and isinstance(e.func, ast.Name) and e.func.id == "len" and len(e.args) == 1:
-        return prov.row_expr_kind(e.args[0], at)
-    return None
-
-
-def arity_guard(test, prov, at):
-    """N if test is `len(<row>) == N` (either side; a local bound to len(row) is resolved by the caller)."""
-    if isinstance(test, ast.Compare) and len(test.ops) == 1 and isinstance(test.ops[0], ast.Eq):
-        for a, c in ((test.left, test.comparators[0]), (test.comparators[0], test.left)):
-            if len_of_row(a, prov, at) is not None and isinstance(au.const(c), int):
-                return au.const(c)
-    return None
-
-
-def writer_blocks(fmt, fn):
-    prov = cc.Prov(fn)
-    b = sym.Bindings(fn)
-    out = []
-    for kind, loop, via in prov.row_loops():
-        writes = [c for c in au.calls(loop) if au.call_tail(c) == "write" and len(c.args) == 1]
-        for w in sorted(writes, key=lambda c: (c.lineno, c.col_offset)):
-            guard_n, other = None, []
-            for test, pol in au.guards(w, stop=loop):
-                t = cc.resolve(b, test, at=w, keep=tuple(au.names(loop.target)))
-                n = arity_guard(t, prov, w) if pol else None
-                if n is not None:
-                    guard_n = n
-                else:
-                    other.append((test, pol))
-            parts = cc.flatten(w.args[0], b, w)
-            blk = WBlock(fmt=fmt, kind=kind, loop=loop, via=via, write=w, parts=parts, guard_n=guard_n,
-                         other_guards=other, tag=None, tag_fields=0, fields=0, offsets=set(), positions=[],
-                         trailing=0, leaves=[], unknown=[], joins=[], prov=prov, b=b, fn=fn)
-            _analyse_parts(blk)
-            out.append(blk)
-    return prov, b, out
-
-
-def _analyse_parts(blk):
-    prov, w = blk.prov, blk.write
-    seen_index = False
-    first = True
-    for i, p in enumerate(blk.parts):
-        if p[0] == "lit":
-            toks = p[1].split()
-            if first and toks:
-                # leading literal token(s): a tag such as 'v' / 'f' / 'l'
-                blk.tag = toks[0]
-                blk.tag_fields = len(toks)
-            elif seen_index:
-                blk.trailing += len(toks)
-            first = first and not toks
-            continue
-        if p[0] == "leaf":
-            lf = p[1]
-            c = prov.classify(lf.expr, lf.expr)
-            if c and c[0] == "elem" and c[1] == blk.kind:
-                blk.fields = blk.fields + 1 if blk.fields != "all" else "all"
-                blk.offsets.add(c[2])
-                blk.positions.append(c[3])
-                blk.leaves.append(lf)
-                seen_index = True
-                blk.trailing = 0
-            elif len_of_row(lf.expr, prov, lf.expr) == blk.kind and not seen_index:
-                if first:
-                    blk.tag = ("len",)
-                blk.tag_fields += 1
-            else:
-                blk.unknown.append(lf.expr)
-            first = False
-            continue
-        if p[0] == "join":
-            j = p[1]
-            g = j.gens[0] if len(j.gens) == 1 else None
-            ok = False
-            if g is not None and not g.ifs and prov.row_expr_kind(cc.Prov.unwrap_row(g.iter), j.node) == blk.kind:
-                for q in j.parts:
-                    if q[0] == "leaf":
-                        c = prov.classify(q[1].expr, q[1].expr)
-                        if c and c[0] == "elem" and c[1] == blk.kind:
-                            blk.fields = "all"
-                            blk.offsets.add(c[2])
-                            blk.leaves.append(q[1])
-                            seen_index = True
-                            blk.trailing = 0
-                            ok = True
-            if not ok:
-                blk.unknown.append(j.node)
-            blk.joins.append(j)
-            first = False
-            continue
-        blk.unknown.append(p[1])
-        first = False
-
-
-def describe(blk):
-    t = blk.tag if not isinstance(blk.tag, tuple) else "len(row)"
-    return f"{blk.fmt} {blk.kind} row (tag {t}, {blk.fields} field(s))"
-
-
-# =========================================================================== generic writer rules
-def l1_float_format(ctx, fmt, mod, fn, prov, b):
-    """every coordinate leaf is rendered with the default (shortest round-trip) formatting"""
-    n = 0
-    seen = set()
-    for lf in cc.leaves(fn, b):
-        c = prov.classify(lf.expr, lf.expr)
-        if not c or c[0] != "elem" or c[1] != "vertices":
-            continue
-        key = (id(lf.node), au.src(lf.expr), lf.spec, lf.conv)
-        if key in seen:
-            continue
-        seen.add(key)
-        n += 1
-        site = ctx.site(mod, fn, lf.node)
-        bare = isinstance(lf.expr, ast.Starred) and c[2] == 0 or c[2] == 0 and not any(
-            isinstance(x, ast.Call) for x in au.walk(lf.expr))
-        if isinstance(lf.expr, ast.Starred) and isinstance(lf.expr.value, (ast.GeneratorExp, ast.ListComp)):
-            bare = isinstance(lf.expr.value.elt, ast.Name)
-        ctx.check(lf.plain(), "C04-L1", site,
-                  f"{fmt}: coordinate `{au.src(lf.expr)}` is written with format "
-                  f"{(lf.spec if lf.how == 'percent' else ('!' + lf.conv if lf.conv else '') + ':' + str(lf.spec))!r}"
-                  if not lf.plain() else f"{fmt}: coordinate {au.src(lf.expr)} default-formatted",
-                  "a precision / conversion in the format loses bits (or changes the token): the reloaded coordinate differs "
-                  "from the saved one", note=f"{fmt}: {au.src(lf.expr)} rendered with the default float repr")
-        ctx.check(bare, "C04-L1", site,
-                  f"{fmt}: coordinate is transformed before being written: `{au.src(lf.expr)}`",
-                  "rounding / casting / arithmetic on a coordinate before formatting is lossy",
-                  note=f"{fmt}: {au.src(lf.expr)} written as is")
-    return n
-
-
-def b1_writer_offsets(ctx, fmt, mod, fn, prov, b):
-    n = 0
-    seen = set()
-    for lf in cc.leaves(fn, b):
-        c = prov.classify(lf.expr, lf.expr)
-        if not c or c[0] != "elem" or c[1] not in INDEX_KINDS:
-            continue
-        key = (id(lf.node), au.src(lf.expr))
-        if key in seen:
-            continue
-        seen.add(key)
-        n += 1
-        off = c[2]
-        site = ctx.site(mod, fn, lf.node)
-        if off is None:
-            ctx.fail("C04-B1", site, f"{fmt}: {c[1]} index is not written as `index + constant`: `{au.src(lf.expr)}`",
-                     "a vertex index must be written shifted by the index base of the format")
-            continue
-        ctx.check(off == BASE[fmt], "C04-B1", site,
-                  f"{fmt}: {c[1]} index written with offset {off:+d}, the format is {BASE[fmt]}-based",
-                  f"`{au.src(lf.expr)}`: every vertex index of the saved file is shifted by {off - BASE[fmt]:+d} for any reader "
-                  f"of the format (including the library's own importer)",
-                  note=f"{fmt}: {c[1]} index written as index{BASE[fmt]:+d}")
-        ctx.check(lf.plain() or (lf.how in ("format", "fstring") and lf.spec in ("", "d") and lf.conv is None),
-                  "C04-B1", site, f"{fmt}: {c[1]} index `{au.src(lf.expr)}` written with a non-integer format",
-                  "an index must be written as a plain integer token")
-    return n
-
-
-def altering_wrappers(e):
-    """Wrappers around a row that change its order or content: sorted(..), reversed(..), set(..), keyify(..), r[::-1], r[1:]
-    (list(..), tuple(..), r[:] keep it)."""
-    out = []
-    for _ in range(4):
-        if isinstance(e, ast.Call) and au.call_tail(e) in cc.Prov.ROW_WRAPPERS and e.args:
-            if au.call_tail(e) in ORDER_DESTROYING:
-                out.append(au.call_tail(e))
-            e = e.args[0]
-        elif isinstance(e, ast.Subscript) and isinstance(e.slice, ast.Slice):
-            sl = e.slice
-            if not (sl.lower is None and sl.upper is None and (sl.step is None or au.const(sl.step) == 1)):
-                out.append("slice")
-            e = e.value
-        else:
-            break
-    return out
-
-
-def v1_writer_order(ctx, fmt, mod, fn, prov, b):
-    """iteration over a face/cell row for writing uses the row itself, and no order-destroying call touches a row"""
-    n = 0
-    for node in au.walk(fn):
-        # (a) every `for v in <row>` / comprehension over a row of faces/cells iterates the bare row
-        its = []
-        if isinstance(node, ast.For):
-            its.append((node.iter, node))
-        elif isinstance(node, ast.comprehension):
-            its.append((node.iter, au.parent(node)))
-        for it, at in its:
-            x = cc.Prov.unwrap_row(it)
-            rk = prov.row_expr_kind(x, it) if isinstance(x, ast.Name) else None
-            if rk in ("faces", "cells"):
-                if True:
-                    n += 1
-                    ctx.check(not altering_wrappers(it), "C04-V1", ctx.site(mod, fn, at),
-                              f"{fmt}: {rk} row is iterated through `{au.src(it)}` instead of the row itself",
-                              "the vertex order of a face / cell must be written unchanged",
-                              note=f"{fmt}: {rk} row iterated in stored order")
-        # (b) order-destroying calls / reversed slices on rows or their elements
-        bad = None
-        if isinstance(node, ast.Call) and au.call_tail(node) in ORDER_DESTROYING:
-            bad = list(node.args) + ([node.func.value] if isinstance(node.func, ast.Attribute) else [])
-        elif isinstance(node, ast.Subscript) and isinstance(node.slice, ast.Slice) and node.slice.step is not None \
-                and (au.const(node.slice.step) or 1) < 0:
-            bad = [node.value]
-        if bad:
-            for a in bad:
-                for x in au.walk(a):
-                    if isinstance(x, ast.Name):
-                        r = prov.name_role(x.id, x)
-                        if r and r[1] in ("faces", "cells"):
-                            ctx.fail("C04-V1", ctx.site(mod, fn, node),
-                                     f"{fmt}: `{au.src(node)}` reorders a {r[1]} row before it is written",
-                                     "the vertex order of a face / cell must be written unchanged")
-    return n
-
-
-# =========================================================================== reader model
-WRAPPERS = {"Vec", "tuple", "list", "array", "asarray"}
-
-
-class RowSpec:
-    """What an importer appends as one row: how many tokens (`arity`), which leading tokens are skipped (`skip`),
-    the numeric conversion applied and the integer added to it."""
-
-    def __init__(self):
-        self.arity = None      # ('const', n) | ('rest',) | ('sym', src) | None (unrecognised)
-        self.skip = 0
-        self.convs = set()
-        self.offsets = set()
-        self.order_ops = []
-        self.token_positions = []   # for literal rows: the token index of each element (or None)
-        self.ok = False
-
-    def __repr__(self):
-        return f"RowSpec(arity={self.arity}, skip={self.skip}, convs={sorted(self.convs)}, offsets={sorted(map(str, self.offsets))})"
-
-
-def _conv_of(elt):
-    """(conversion call tail, offset) of one element expression; (None, None) when no conversion call."""
-    calls = [c for c in au.walk(elt) if isinstance(c, ast.Call) and au.call_tail(c) in NUM_CONV]
-    if not calls:
-        return None, None
-    # outermost conversion
-    outer = [c for c in calls if not any(c is not d and any(x is c for x in ast.walk(d)) for d in calls)]
-    c = outer[0]
-    return au.call_tail(c), cc.arith_context(c, elt)
-
-
-def _slice_info(sl):
-    """(skip, arity) of a slice over a token list."""
-    lo = 0 if sl.lower is None else au.const(sl.lower)
-    if sl.step is not None:
-        return None, None
-    if not isinstance(lo, int):
-        return None, None
-    if sl.upper is None:
-        return lo, ("rest",)
-    hi = au.const(sl.upper)
-    if isinstance(hi, int):
-        return lo, ("const", hi - lo)
-    try:
-        p = sym.to_poly(sl.upper, opaque=False) - lo
-    except sym.NotPoly:
-        return lo, None
-    atoms = p.atoms()
-    if len(atoms) == 1 and p.coeff(next(iter(atoms))) == sym.Poly.const(1) and p.without(next(iter(atoms))).is_const():
-        a = next(iter(atoms))
-        k = p.without(a).const_value()
-        if k == 0:
-            return lo, ("sym", a)
-        if k.denominator == 1:
-            return lo, ("symoff", a, int(k))
-    return lo, None
-
-
-def rowspec(expr, b, at, depth=5):
-    rs = RowSpec()
-    e = expr
-    outer_slice = None
-    for _ in range(8):
-        if isinstance(e, ast.Name):
-            d = b.reaching(e.id, at)
-            if d is None:
-                break
-            at = getattr(b, "_last_def_stmt", at)
-            e = d
-            continue
-        if isinstance(e, ast.Call) and au.call_tail(e) in WRAPPERS and len(e.args) == 1 and not e.keywords:
-            e = e.args[0]
-            continue
-        if isinstance(e, ast.Call) and au.call_tail(e) in ORDER_DESTROYING:
-            rs.order_ops.append(au.call_tail(e))
-            if len(e.args) == 1:
-                e = e.args[0]
-                continue
-            e = ast.Tuple(elts=list(e.args), ctx=ast.Load())
-            continue
-        if isinstance(e, ast.Subscript) and isinstance(e.slice, ast.Slice) and outer_slice is None \
-                and isinstance(e.value, (ast.ListComp, ast.GeneratorExp, ast.Call, ast.Name)):
-            outer_slice = e.slice
-            e = e.value
-            continue
-        break
-    if isinstance(e, (ast.ListComp, ast.GeneratorExp)) and len(e.generators) == 1 and not e.generators[0].ifs:
-        g = e.generators[0]
-        conv, off = _conv_of(e.elt)
-        if conv is not None:
-            rs.convs.add(conv)
-            rs.offsets.add(off)
-        src = g.iter
-        for _ in range(4):
-            if isinstance(src, ast.Name):
-                d = b.reaching(src.id, at)
-                if d is None:
-                    break
-                src = d
-            else:
-                break
-        skip, arity = 0, ("rest",)
-        if isinstance(src, ast.Subscript) and isinstance(src.slice, ast.Slice):
-            skip, arity = _slice_info(src.slice)
-        if outer_slice is not None:
-            s2, a2 = _slice_info(outer_slice)
-            if arity == ("rest",) and s2 is not None:
-                skip, arity = (skip or 0) + s2, a2
-            else:
-                arity = None
-        rs.skip, rs.arity = skip, arity
-        rs.ok = arity is not None and skip is not None
-        return rs
-    if isinstance(e, (ast.List, ast.Tuple)) and e.elts and outer_slice is None:
-        rs.arity = ("const", len(e.elts))
-        for x in e.elts:
-            if isinstance(x, ast.Name):
-                d = b.reaching(x.id, at)
-                if d is not None:
-                    x = d
-            conv, off = _conv_of(x)
-            if conv is not None:
-                rs.convs.add(conv)
-                rs.offsets.add(off)
-            pos = None
-            for s in au.walk(x):
-                if isinstance(s, ast.Subscript) and isinstance(au.const(s.slice), int) and isinstance(s.value, ast.Name):
-                    pos = au.const(s.slice)
-            rs.token_positions.append(pos)
-        known = [p for p in rs.token_positions if p is not None]
-        rs.skip = min(known) if known else 0
-        rs.ok = True
-        return rs
-    return rs
-
-
-class RBlock:
-    def __init__(self, **kw):
-        self.__dict__.update(kw)
-
-
-def branch_keys(node, stop=None):
-    """Constants an enclosing if/elif chain compares against to reach `node`:
-    [(compared expr src, constant, polarity)] innermost first."""
-    out = []
-    for test, pol in au.guards(node, stop=stop):
-        if isinstance(test, ast.Compare) and len(test.ops) == 1 and isinstance(test.ops[0], ast.Eq):
-            l, r = test.left, test.comparators[0]
-            if isinstance(r, ast.Constant) and not isinstance(l, ast.Constant):
-                out.append((l, r.value, pol, test))
-            elif isinstance(l, ast.Constant):
-                out.append((r, l.value, pol, test))
-            else:
-                out.append((None, None, pol, test))
-        else:
-            out.append((None, None, pol, test))
-    return out
-
-
-def container_append_kind(call, objnames=None):
-    """kind if call is `<x>.<kind>.append(..)` / `<x>.<kind> += ..`"""
-    f = call.func
-    if isinstance(f, ast.Attribute) and f.attr == "append" and isinstance(f.value, ast.Attribute) \
-            and f.value.attr in cc.KINDS and isinstance(f.value.value, ast.Name):
-        return f.value.attr
-    return None
-
-
-def helper_appends(repo, mod, fn):
-    """For a module-level helper that appends to one of its parameters:
-    (param index of the container, RowSpec of the appended row, {sym name -> param index}, count param index)."""
-    ps = au.params(fn)
-    b = sym.Bindings(fn)
-    for c in au.calls(fn):
-        if au.call_tail(c) == "append" and isinstance(c.func.value, ast.Name) and c.func.value.id in ps and len(c.args) == 1:
-            rs = rowspec(c.args[0], b, c)
-            loops = [a for a in au.ancestors(c) if isinstance(a, ast.For)]
-            cnt = None
-            if loops and isinstance(loops[0].iter, ast.Call) and au.call_tail(loops[0].iter) == "range" \
-                    and len(loops[0].iter.args) == 1 and isinstance(loops[0].iter.args[0], ast.Name) \
-                    and loops[0].iter.args[0].id in ps:
-                cnt = ps.index(loops[0].iter.args[0].id)
-            return ps.index(c.func.value.id), rs, {p: i for i, p in enumerate(ps)}, cnt, c
-    return None
-
-
-def reader_blocks(repo, fmt, mod, fn):
-    """Every append of a row to `<obj>.<kind>` in an importer, directly or through a helper taking the container."""
-    b = sym.Bindings(fn)
-    out = []
-    for c in sorted(au.calls(fn), key=lambda c: (c.lineno, c.col_offset)):
-        kind = container_append_kind(c)
-        if kind is not None and len(c.args) == 1:
-            rs = rowspec(c.args[0], b, c)
-            out.append(RBlock(fmt=fmt, kind=kind, spec=rs, node=c, keys=branch_keys(c), fn=fn, count=None, via=None, b=b))
-            continue
-        # helper(data, obj.<kind>, n, arity)
-        if isinstance(c.func, ast.Name):
-            r = repo.resolve(mod, c.func.id)
-            if r and r[0] == "def" and r[1] == "mouette." + mod:
-                hfn = repo.modules[r[1]].funcs.get(r[2])
-                kinds = [(i, a.attr) for i, a in enumerate(c.args) if isinstance(a, ast.Attribute) and a.attr in cc.KINDS
-                         and isinstance(a.value, ast.Name)]
-                if hfn is not None and kinds:
-                    h = helper_appends(repo, mod, hfn)
-                    if h is None:
-                        continue
-                    pc, rs0, pidx, cnt, hnode = h
-                    if [k for i, k in kinds if i == pc]:
-                        kind = [k for i, k in kinds if i == pc][0]
-                        rs = RowSpec()
-                        rs.__dict__.update(rs0.__dict__)
-                        if rs.arity and rs.arity[0] == "sym" and rs.arity[1] in pidx and pidx[rs.arity[1]] < len(c.args):
-                            v = au.const(c.args[pidx[rs.arity[1]]])
-                            rs.arity = ("const", v) if isinstance(v, int) else ("sym", au.src(c.args[pidx[rs.arity[1]]]))
-                        count = c.args[cnt] if cnt is not None and cnt < len(c.args) else None
-                        out.append(RBlock(fmt=fmt, kind=kind, spec=rs, node=c, keys=branch_keys(c), fn=fn, count=count,
-                                          via=hfn, b=b))
-    return out
-
-
-# =========================================================================== shared reader rules
-def b1_reader_offsets(ctx, fmt, mod, rblocks):
-    n = 0
-    for rb in rblocks:
-        if rb.kind not in INDEX_KINDS or not rb.spec.convs:
-            continue
-        n += 1
-        site = ctx.site(mod, rb.fn if rb.via is None else rb.via, rb.node if rb.via is None else None)
-        offs = rb.spec.offsets
-        if None in offs:
-            ctx.fail("C04-B1", site, f"{fmt}: {rb.kind} index is not parsed as `int(token) + constant`",
-                     "a vertex index must be read shifted back by the index base of the format")
-            continue
-        bad = sorted(o for o in offs if o != -BASE[fmt])
-        ctx.check(not bad, "C04-B1", site,
-                  f"{fmt}: {rb.kind} index read with offset {bad[0] if bad else 0:+d}, the format is {BASE[fmt]}-based",
-                  f"every vertex index of a loaded {rb.kind[:-1]} is shifted by {(bad[0] if bad else 0) + BASE[fmt]:+d} "
-                  f"(the exporter and every conforming writer add {BASE[fmt]})",
-                  note=f"{fmt}: {rb.kind} index read as int(token){-BASE[fmt]:+d}")
-        ctx.check(rb.spec.convs <= {"int"}, "C04-B1", site,
-                  f"{fmt}: {rb.kind} index parsed with {sorted(rb.spec.convs)} instead of int",
-                  "indices are integer tokens")
-    return n
-
-
-def l1_reader_floats(ctx, fmt, mod, rblocks):
-    n = 0
-    for rb in rblocks:
-        if rb.kind != "vertices" or not rb.spec.convs:
-            continue
-        n += 1
-        site = ctx.site(mod, rb.fn, rb.node)
-        ctx.check(rb.spec.convs <= FLOAT_OK and rb.spec.offsets <= {0}, "C04-L1", site,
-                  f"{fmt}: coordinates are parsed with {sorted(rb.spec.convs)}"
-                  f"{' and shifted' if not rb.spec.offsets <= {0} else ''} instead of float()",
-                  "a double written with its shortest repr is recovered bit-exactly by float(); a narrower type or rounding is lossy",
-                  note=f"{fmt}: coordinates parsed with float()")
-    return n
-
-
-def v1_reader_order(ctx, fmt, mod, fns, rblocks, writer_fn):
-    n = 0
-    for rb in rblocks:
-        if rb.kind in ("faces", "cells"):
-            n += 1
-            ctx.check(not rb.spec.order_ops, "C04-V1", ctx.site(mod, rb.fn, rb.node),
-                      f"{fmt}: {rb.kind} row passes through {'/'.join(rb.spec.order_ops)} before being stored",
-                      "the vertex order of a loaded face / cell must be the order in the file",
-                      note=f"{fmt}: {rb.kind} row stored in file order")
-    for fn in fns:
-        if fn is writer_fn:
-            continue
-        for c in au.calls(fn):
-            if au.call_tail(c) not in ORDER_DESTROYING:
-                continue
-            st = au.enclosing_stmt(c)
-
-            def in_edges_append(node):
-                for a in [node] + list(au.ancestors(node)):
-                    if isinstance(a, ast.Call) and container_append_kind(a) == "edges":
-                        return True
-                    if isinstance(a, ast.stmt):
-                        break
-                return False
-            ok = in_edges_append(c)
-            if not ok and isinstance(st, ast.Assign) and len(st.targets) == 1 and isinstance(st.targets[0], ast.Name):
-                t = st.targets[0].id
-                uses = [x for x in au.walk(fn) if isinstance(x, ast.Name) and x.id == t and isinstance(x.ctx, ast.Load)]
-                ok = bool(uses) and all(in_edges_append(u) for u in uses)
-            n += 1
-            ctx.check(ok, "C04-V1", ctx.site(mod, fn, c),
-                      f"{fmt}: `{au.src(c)}` reorders data that is not (only) an edge",
-                      "only edges are unordered pairs; a sorted / reversed / set-ified face or cell row changes the element",
-                      note=f"{fmt}: {au.call_tail(c)} applied to an edge only")
-    return n
-
-
-def coordinate_order(ctx, fmt, mod, fn, wblocks):
-    n = 0
-    for wb in wblocks:
-        if wb.kind != "vertices":
-            continue
-        pos = [p for p in wb.positions if p is not None]
-        if not pos:
-            continue
-        n += 1
-        ctx.check(pos == [0, 1, 2], "C04-E1", ctx.site(mod, fn, wb.write),
-                  f"{fmt}: coordinates are written in component order {pos} instead of [0, 1, 2]",
-                  "the importer assigns the first three tokens of a vertex line to x, y, z",
-                  note=f"{fmt}: x y z written in order")
-    return n
-
-
-# =========================================================================== header counts (off, tet)
-def header_counts_writer(fn, prov, b, wblocks):
-    """[(kind, leaf, write call, index of the leaf in its line)] for every `len(mesh.K)` written outside the row loops."""
-    loops = [wb.loop for wb in wblocks]
-    out = []
-    for c in sorted((c for c in au.calls(fn) if au.call_tail(c) == "write" and len(c.args) == 1),
-                    key=lambda c: (c.lineno, c.col_offset)):
-        if any(any(a is lp for a in au.ancestors(c)) for lp in loops):
-            continue
-        for line in cc.lines_of(cc.flatten(c.args[0], b, c)):
-            tok = 0
-            for p in line:
-                if p[0] == "lit":
-                    tok += len(p[1].split())
-                elif p[0] == "leaf":
-                    e = cc.resolve(b, p[1].expr, at=c)
-                    if isinstance(e, ast.Call) and isinstance(e.func, ast.Name) and e.func.id == "len" and len(e.args) == 1 \
-                            and prov.container_kind(e.args[0]) in cc.KINDS:
-                        out.append((prov.container_kind(e.args[0]), p[1], c, tok))
-                    tok += 1
-    return out
-
-
-def header_counts_reader(fn):
-    """Ordered count variables of an importer: names bound to int(...) of header tokens, in consumption order,
-    with the kinds appended in the loop each one bounds."""
-    b = sym.Bindings(fn)
-    names = []
-    for st in au.stmts(fn.body):
-        if not isinstance(st, ast.Assign) or len(st.targets) != 1:
-            continue
-        t, v = st.targets[0], st.value
-        if isinstance(t, ast.Name) and isinstance(v, ast.Call) and isinstance(v.func, ast.Name) and v.func.id == "int":
-            names.append((t.id, st))
-        elif isinstance(t, (ast.Tuple, ast.List)) and isinstance(v, (ast.GeneratorExp, ast.ListComp)) \
-                and isinstance(v.elt, ast.Call) and isinstance(v.elt.func, ast.Name) and v.elt.func.id == "int":
-            for x in t.elts:
-                if isinstance(x, ast.Name):
-                    names.append((x.id, st))
-    out = []
-    for name, st in names:
-        kinds = set()
-        used = False
-        for lp in au.stmts(fn.body):
-            if isinstance(lp, ast.For) and isinstance(lp.iter, ast.Call) and au.call_tail(lp.iter) == "range" \
-                    and len(lp.iter.args) == 1 and isinstance(lp.iter.args[0], ast.Name) and lp.iter.args[0].id == name:
-                used = True
-                for c in au.calls(lp):
-                    k = container_append_kind(c)
-                    if k:
-                        kinds.add(k)
-        out.append((name, kinds, used, st))
-    # only the counts read before the first bounded loop form the header
-    return out
-
-
-def h1_flat_header(ctx, fmt, mod, wfn, rfn, prov, b, wblocks):
-    wc = header_counts_writer(wfn, prov, b, wblocks)
-    rc = header_counts_reader(rfn)
-    wsite, rsite = ctx.site(mod, wfn), ctx.site(mod, rfn)
-    n = 0
-    if not wc or not rc:
-        ctx.fail("C04-H1", wsite if not wc else rsite, f"{fmt}: header counts not found",
-                 "the format starts with the number of vertices / elements")
-        return 0
-    for i, (name, kinds, used, st) in enumerate(rc):
-        if not used or not kinds:
-            continue
-        n += 1
-        # `n = int(<line tokens>[k])`: k is the position of the count on the header line written by the exporter
-        if isinstance(st.value, ast.Call) and len(st.value.args) == 1 and isinstance(st.value.args[0], ast.Subscript) \
-                and isinstance(au.const(st.value.args[0].slice), int) and i < len(wc):
-            k = au.const(st.value.args[0].slice)
-            ctx.check(k == wc[i][3], "C04-H1", rsite,
-                      f"{fmt}: header count #{i + 1} is read from token {k} of its line, the exporter writes it as token {wc[i][3]}",
-                      "the number of rows to read is taken from the wrong token", note=f"{fmt}: count #{i + 1} token position agrees")
-        wk = wc[i][0] if i < len(wc) else None
-        mine = [wb.kind for wb in wblocks if wb.kind in kinds]
-        ctx.check(wk in kinds and (not mine or set(mine) == {wk}), "C04-H1", wsite,
-                  f"{fmt}: header count #{i + 1} written is len(mesh.{wk}) but the importer uses count #{i + 1} to read "
-                  f"{'/'.join(sorted(kinds))}",
-                  f"`{name}` bounds the loop that reads {'/'.join(sorted(kinds))} rows; the exporter writes the number of "
-                  f"{wk} there: rows are mis-assigned or the file is truncated on reload",
-                  note=f"{fmt}: count #{i + 1} = number of {wk} on both sides")
-    # each written row block is announced by the count of its own container, and blocks come in the order of the counts
-    order = [k for k, *_ in wc]
-    rows = []
-    for wb in wblocks:
-        if wb.kind not in rows:
-            rows.append(wb.kind)
-    for k in rows:
-        n += 1
-        ctx.check(k in order, "C04-H1", wsite, f"{fmt}: rows of mesh.{k} are written but their number is not in the header",
-                  "the importer reads exactly as many rows as the header announces")
-    ctx.check([k for k in order if k in rows] == rows, "C04-H1", wsite,
-              f"{fmt}: row blocks are written in order {rows} but announced in order {[k for k in order if k in rows]}",
-              "the importer reads the blocks in header order")
-    for wb in wblocks:
-        ctx.check(wb.guard_n is None and not wb.other_guards, "C04-H1", ctx.site(mod, wfn, wb.write),
-                  f"{fmt}: only some {wb.kind} rows are written while the header announces len(mesh.{wb.kind})",
-                  "the importer reads exactly as many rows as the header announces")
-    # reader row loops come in the same order
-    rorder = [sorted(kinds) for name, kinds, used, st in rc if used and kinds]
-    ok = len(rorder) >= len(rows) and all(rows[i] in rorder[i] for i in range(len(rows)))
-    ctx.check(ok, "C04-H1", rsite, f"{fmt}: importer reads blocks {rorder}, exporter writes {rows}",
-              "blocks must be read in the order they are written")
-    return n
-
-
-# =========================================================================== tag / keyword matching
-def rblock_matches(rb, tagvar_value):
-    """Does the guard conjunction of a reader block hold when the compared expression equals `tagvar_value`?
-    Guards that do not compare the tag are ignored."""
-    for expr, const, pol, test in rb.keys:
-        if expr is None:
-            continue
-        hit = (const == tagvar_value)
-        if hit != pol:
-            return False
-    return True
-
-
-def keyed(rblocks):
-    """{constant: [blocks whose innermost positive guard compares with that constant]}"""
-    out = {}
-    for rb in rblocks:
-        for expr, const, pol, test in rb.keys:
-            if expr is not None and pol:
-                out.setdefault(const, []).append(rb)
-                break
-    return out
-
-
-def reader_arity(rb, n=None):
-    a = rb.spec.arity
-    if a is None:
-        return None
-    if a[0] == "const":
-        return a[1]
-    if a[0] == "rest":
-        return "rest"
-    if a[0] == "sym":
-        # symbolic arity: equal to the tag when it is the compared name
-        for expr, const, pol, test in rb.keys:
-            if expr is not None and isinstance(expr, ast.Name) and expr.id == a[1] and pol:
-                return const
-        return ("sym", a[1])
-    return None
-
-
-def writer_arity(wb):
-    if wb.guard_n is not None:
-        return wb.guard_n
-    return wb.fields
-
-
-# =========================================================================== medit
-def preceding_lines(stmt, b):
-    """Text written by the `write` statements that precede `stmt` (same block, then enclosing if-blocks),
-    as lines; stops at the previous loop."""
-    parts = []
-    cur = stmt
-    for _ in range(4):
-        blk, owner = au.enclosing_block(cur)
-        if blk is None:
-            break
-        idx = [id(x) for x in blk].index(id(cur))
-        stop = False
-        for s in reversed(blk[:idx]):
-            if isinstance(s, (ast.For, ast.While)):
-                stop = True
-                break
-            if isinstance(s, ast.If) and any(au.call_tail(c) == "write" for c in au.calls(s)):
-                stop = True
-                break
-            if isinstance(s, ast.Expr) and isinstance(s.value, ast.Call) and au.call_tail(s.value) == "write" \
-                    and len(s.value.args) == 1:
-                parts = cc.flatten(s.value.args[0], b, s.value) + parts
-        if stop or len(cc.lines_of(parts)) >= 2 or not isinstance(owner, ast.If):
-            break
-        cur = owner
-    return cc.lines_of(parts)
-
-
-def count_table(repo, mod, fn):
-    """For `def count_x(mesh): t=[0,0,0]; for r in mesh.K: if len(r)==N: t[i]+=1 ... return t`:
-    (kind, {i: N | 'else'})"""
-    ps = au.params(fn)
-    prov = cc.Prov(fn)
-    b = sym.Bindings(fn)
-    rets = [s.value for s in au.stmts(fn.body) if isinstance(s, ast.Return) and isinstance(s.value, ast.Name)]
-    if len(rets) != 1:
-        return None
-    L = rets[0].id
-    table, kind = {}, None
-    for st in au.stmts(fn.body):
-        if isinstance(st, ast.AugAssign) and isinstance(st.op, ast.Add) and au.const(st.value) == 1 \
-                and isinstance(st.target, ast.Subscript) and isinstance(st.target.value, ast.Name) and st.target.value.id == L:
-            i = au.const(st.target.slice)
-            loops = [a for a in au.ancestors(st) if isinstance(a, ast.For)]
-            if not loops or not isinstance(i, int):
-                return None
-            k = prov.container_kind(loops[0].iter)
-            if k is None or (kind is not None and k != kind):
-                return None
-            kind = k
-            gs = au.guards(st, stop=loops[0])
-            val = None
-            excluded = []
-            for test, pol in gs:
-                t = cc.resolve(b, test, at=st, keep=tuple(au.names(loops[0].target)))
-                n = arity_guard(t, prov, st)
-                if n is None:
-                    return None
-                if pol and val is None:
-                    val = n
-                elif not pol:
-                    excluded.append(n)
-                else:
-                    return None
-            if i in table:
-                return None
-            table[i] = val if val is not None else ("else", tuple(sorted(excluded)))
-    return kind, table
-
-
-def medit_count_ok(repo, mod, wb, count_leaf):
-    """Is the count written for this block the number of rows the loop writes?  (ok, explanation)"""
-    b, prov, loop = wb.b, wb.prov, wb.loop
-    e = count_leaf.expr
-    if wb.guard_n is None and not wb.other_guards:
-        it, _ = cc.strip_enumerate(loop.iter)
-        r = cc.resolve(b, e, at=wb.loop)
-        ok = isinstance(r, ast.Call) and isinstance(r.func, ast.Name) and r.func.id == "len" and len(r.args) == 1 \
-            and au.same(r.args[0], cc.resolve(b, it, at=wb.loop))
-        return ok, f"count `{au.src(r)}` vs rows of `{au.src(it)}`"
-    if wb.guard_n is None:
-        return None, "guarded by an unrecognised condition"
-    N = wb.guard_n
-    # comprehension forms
-    r = e if not isinstance(e, ast.Name) else (b.reaching(e.id, wb.loop) or e)   # original nodes: provenance needs parents
-    comp = None
-    if isinstance(r, ast.Call) and isinstance(r.func, ast.Name) and r.func.id in ("sum", "len") and len(r.args) == 1 \
-            and isinstance(r.args[0], (ast.GeneratorExp, ast.ListComp)):
-        comp = r.args[0]
-        g = comp.generators[0]
-        if len(comp.generators) == 1 and prov.container_kind(g.iter) == wb.kind and len(g.ifs) == 1 \
-                and (r.func.id == "len" or au.const(comp.elt) == 1):
-            p2 = cc.Prov(wb.fn)
-            n = arity_guard(g.ifs[0], p2, g.ifs[0])
-            return n == N, f"count of rows with len == {n}"
-        return None, "unrecognised count comprehension"
-    # name unpacked from a counter function
-    if isinstance(e, ast.Name):
-        bd = prov.find_binding(e.id, wb.loop)
-        if bd and bd[2] == "assign" and isinstance(bd[1], ast.Call) and isinstance(bd[1].func, ast.Name):
-            rr = repo.resolve(mod, bd[1].func.id)
-            if rr and rr[0] == "def":
-                cfn = repo.modules[rr[1]].funcs.get(rr[2])
-                ct = count_table(repo, mod, cfn) if cfn is not None else None
-                if ct is None:
-                    return None, f"{bd[1].func.id} is not a recognisable per-arity counter"
-                kind, table = ct
-                tgt = bd[0]
-                pos = None
-                if isinstance(tgt, (ast.Tuple, ast.List)):
-                    for i, t in enumerate(tgt.elts):
-                        if isinstance(t, ast.Name) and t.id == e.id:
-                            pos = i
-                if pos is None:
-                    return None, "count is not unpacked from the counter result"
-                got = table.get(pos)
-                return (kind == wb.kind and got == N), \
-                    f"`{e.id}` is slot {pos} of {bd[1].func.id}(), which counts mesh.{kind} rows with len == {got}"
-    return None, "count expression not recognised"
-
-
-def run_medit(ctx, repo):
-    fmt, mod = "medit", IOMOD["medit"]
-    wfn, rfn = repo.func(mod, "export_medit"), repo.func(mod, "import_medit")
-    prov, b, wblocks = writer_blocks(fmt, wfn)
-    rblocks = reader_blocks(repo, fmt, mod, rfn)
-    wsite, rsite = ctx.site(mod, wfn), ctx.site(mod, rfn)
-    if repo.has_func(mod, "parse_field"):
-        ctx.site(mod, repo.func(mod, "parse_field"))
-    floor(ctx, "C04-E1 medit written blocks", len(wblocks), 4, ctx.site(mod, wfn))
-    floor(ctx, "C04-E1 medit parsed blocks", len(rblocks), 4, ctx.site(mod, rfn))
-    rkey = keyed(rblocks)
-    for wb in wblocks:
-        site = ctx.site(mod, wfn, wb.write)
-        lines = preceding_lines(wb.loop, b)
-        kw = cnt = None
-        if len(lines) >= 2 and len(lines[-2]) == 1 and lines[-2][0][0] == "lit" and len(lines[-1]) == 1 \
-                and lines[-1][0][0] == "leaf":
-            kw, cnt = lines[-2][0][1].strip(), lines[-1][0][1]
-        if kw is None:
-            ctx.fail("C04-E1", site, f"medit: keyword / count lines of the {wb.kind} block not found",
-                     "each medit block is `Keyword`, the number of rows, then the rows")
-            continue
-        N = writer_arity(wb)
-        # writer self-consistency: placeholders == arity of the rows selected by the guard
-        ctx.check(wb.fields == N and not wb.unknown, "C04-E1", site,
-                  f"medit {kw}: rows of {N} indices are written through {wb.fields} placeholder(s)",
-                  "str.format silently drops surplus arguments / raises on missing ones: the row in the file does not hold "
-                  "the vertices of the element", note=f"medit {kw}: {N} indices per row written")
-        # count
-        ok, why = medit_count_ok(repo, mod, wb, cnt)
-        if ok is None:
-            ctx.fail("C04-H1", site, f"medit {kw}: row count not found", why)
-        else:
-            ctx.check(ok, "C04-H1", site, f"medit {kw}: the count written is not the number of rows written after it",
-                      f"{why}; the block writes the rows with len == {N}" if wb.guard_n else why,
-                      note=f"medit {kw}: {why}")
-        # reader block for this keyword
-        rbs = rkey.get(kw, [])
-        if not rbs:
-            ctx.fail("C04-E1", site, f"medit: section keyword `{kw}` is not recognised by import_medit",
-                     f"the {wb.kind} written under `{kw}` are skipped on reload")
-            continue
-        rb = rbs[0]
-        ra = reader_arity(rb)
-        rs = ctx.site(mod, rfn, rb.node)
-        ctx.check(rb.kind == wb.kind, "C04-E1", rs,
-                  f"medit {kw}: written from mesh.{wb.kind}, read into {rb.kind}",
-                  f"elements saved as {wb.kind} come back as {rb.kind}", note=f"medit {kw}: {wb.kind} on both sides")
-        ctx.check(ra == N and rb.spec.skip == wb.tag_fields, "C04-E1", rs,
-                  f"medit {kw}: written with {N} {'coordinates' if wb.kind == 'vertices' else 'indices'} per row, parsed with {ra}",
-                  f"import_medit keeps {ra} token(s) of each `{kw}` row (after skipping {rb.spec.skip}) while export_medit writes "
-                  f"{N} {'coordinates' if wb.kind == 'vertices' else 'vertex indices'} followed by {wb.trailing} reference token(s): the reloaded {wb.kind[:-1] if wb.kind != 'vertices' else 'vertex'} is not the saved one",
-                  note=f"medit {kw}: {N} indices per row on both sides")
-        if rb.kind != "vertices":
-            cnt_ok = rb.count is not None and any(isinstance(x, ast.Call) and isinstance(x.func, ast.Name) and x.func.id == "int"
-                                                  for x in au.walk(cc.resolve(rb.b, rb.count, at=rb.node)))
-            ctx.check(cnt_ok, "C04-H1", rs, f"medit {kw}: the number of rows to parse is not read from the count line",
-                      "the exporter writes the number of rows on the line after the keyword")
-    used_kw = set()
-    for wb in wblocks:
-        ls = preceding_lines(wb.loop, b)
-        if len(ls) >= 2 and len(ls[-2]) == 1 and ls[-2][0][0] == "lit":
-            used_kw.add(ls[-2][0][1].strip())
-    for c in au.calls(wfn):
-        if au.call_tail(c) == "write" and len(c.args) == 1:
-            ls = cc.lines_of(cc.flatten(c.args[0], b, c))
-            if ls and len(ls[0]) == 1 and ls[0][0][0] == "lit" and ls[0][0][1].strip() in rkey:
-                kw = ls[0][0][1].strip()
-                ctx.check(kw in used_kw, "C04-E1", ctx.site(mod, wfn, c),
-                          f"medit: section `{kw}` is announced but no loop writes its rows",
-                          "the importer reads as many rows as the count says from whatever follows",
-                          note=f"medit: section {kw} is followed by its rows")
-    coordinate_order(ctx, fmt, mod, wfn, wblocks)
-    nb = b1_writer_offsets(ctx, fmt, mod, wfn, prov, b) + b1_reader_offsets(ctx, fmt, mod, rblocks)
-    floor(ctx, "C04-B1 medit index sites", nb, 3, ctx.site(mod, wfn))
-    nl = l1_float_format(ctx, fmt, mod, wfn, prov, b) + l1_reader_floats(ctx, fmt, mod, rblocks)
-    floor(ctx, "C04-L1 medit coordinate sites", nl, 2, ctx.site(mod, wfn))
-    nv = v1_writer_order(ctx, fmt, mod, wfn, prov, b)
-    nv += v1_reader_order(ctx, fmt, mod, [f for q, f in repo.module(mod).funcs.items() if "<locals>" not in q], rblocks, wfn)
-    floor(ctx, "C04-V1 medit rows", nv, 2, ctx.site(mod, wfn))
-
-
-# =========================================================================== obj
-def obj_face_writer(wb):
-    """`for vid in face: tok = str(vid+1) ...; line += tok + " "` -> fields 'all'; fills wb.offsets / wb.leaves."""
-    b, prov, w = wb.b, wb.prov, wb.write
-    acc_names = au.names(w.args[0])
-    row = wb.loop.target.id if isinstance(wb.loop.target, ast.Name) else None
-    for inner in au.stmts(wb.loop.body):
-        if not isinstance(inner, ast.For) or not (isinstance(inner.iter, ast.Name) and inner.iter.id == row):
-            continue
-        for st in au.stmts(inner.body):
-            if isinstance(st, ast.AugAssign) and isinstance(st.op, ast.Add) and isinstance(st.target, ast.Name) \
-                    and st.target.id in acc_names:
-                if au.guards(st, stop=inner):
-                    return "the per-vertex token is appended conditionally"
-                parts = cc.flatten(st.value, b, st)
-                if not parts or parts[0][0] != "leaf":
-                    return "the per-vertex token does not start with the vertex index"
-                c = prov.classify(parts[0][1].expr, parts[0][1].expr)
-                if not (c and c[0] == "elem" and c[1] == wb.kind):
-                    return "the per-vertex token does not start with the vertex index"
-                if not (parts[-1][0] == "lit" and parts[-1][1] and parts[-1][1][-1].isspace()):
-                    return "per-vertex tokens are not separated by white space"
-                wb.fields = "all"
-                wb.offsets.add(c[2])
-                wb.leaves.append(parts[0][1])
-                wb.unknown = []
-                return None
-    return "no loop over the vertices of the face building the `f` line"
-
-
-def obj_face_reader(repo, mod, fn, rb):
-    """faces are staged: `L.append([parse_vertex(t) for t in toks[1:]])` under tag 'f', then
-    `for F in L: for (vid, ..) in F: face.append(vid)`; `obj.faces.append(face)`.  Fills rb.spec / rb.keys."""
-    b = rb.b
-    arg = rb.node.args[0]
-    if not isinstance(arg, ast.Name):
-        return "appended face is not a local list"
-    row = arg.id
-    adds = [c for c in au.calls(fn) if au.call_tail(c) == "append" and isinstance(c.func.value, ast.Name)
-            and c.func.value.id == row and len(c.args) == 1 and isinstance(c.args[0], ast.Name)]
-    if len(adds) != 1:
-        return "the vertex ids of a face are not appended one by one to a local list"
-    vid = adds[0].args[0].id
-    prov = cc.Prov(fn)
-    bd = prov.find_binding(vid, adds[0])
-    if not bd or bd[2] != "for" or not isinstance(bd[0], (ast.Tuple, ast.List)) or not isinstance(bd[1], ast.Name):
-        return "vertex id is not unpacked from the parsed (v, vt, vn) triple"
-    pos = [i for i, t in enumerate(bd[0].elts) if isinstance(t, ast.Name) and t.id == vid][0]
-    inner = bd[3]
-    if au.guards(adds[0], stop=inner):
-        return "vertex id appended conditionally"
-    bd2 = prov.find_binding(bd[1].id, inner)
-    if not bd2 or bd2[2] != "for":
-        return "face token list is not iterated from the staged faces"
-    src_e, en = cc.strip_enumerate(bd2[1])
-    if not isinstance(src_e, ast.Name):
-        return "staged faces list not found"
-    outer = bd2[3]
-    if not any(a is outer for a in au.ancestors(rb.node)) or au.guards(rb.node, stop=outer) \
-            or any(isinstance(a, ast.For) and a is not outer for a in au.ancestors(rb.node) if a is not outer and
-                   any(x is a for x in au.walk(outer))):
-        return "faces are not stored once per staged face"
-    stage = [c for c in au.calls(fn) if au.call_tail(c) == "append" and isinstance(c.func.value, ast.Name)
-             and c.func.value.id == src_e.id and len(c.args) == 1]
-    if len(stage) != 1:
-        return "staging append not found"
-    comp = stage[0].args[0]
-    if not (isinstance(comp, (ast.ListComp, ast.GeneratorExp)) and len(comp.generators) == 1 and not comp.generators[0].ifs
-            and isinstance(comp.elt, ast.Call) and isinstance(comp.elt.func, ast.Name)):
-        return "staged face is not [parse(token) for token in tokens]"
-    rr = repo.resolve(mod, comp.elt.func.id)
-    if not rr or rr[0] != "def":
-        return "token parser not found"
-    g = repo.modules[rr[1]].funcs.get(rr[2])
-    gb = sym.Bindings(g)
-    rets = [s for s in au.stmts(g.body) if isinstance(s, ast.Return)]
-    if len(rets) != 1 or not isinstance(rets[0].value, ast.Tuple) or pos >= len(rets[0].value.elts):
-        return "token parser does not return a tuple"
-    e = cc.resolve(gb, rets[0].value.elts[pos], at=rets[0])
-    conv, off = _conv_of(e)
-    # the parsed component is the first '/'-separated field of the token
-    sub = [x for x in au.walk(e) if isinstance(x, ast.Subscript) and isinstance(au.const(x.slice), int)]
-    if not sub or au.const(sub[0].slice) != 0:
-        return "vertex id is not the first '/'-separated field of the token"
-    rs = rb.spec
-    rs.convs, rs.offsets = ({conv} if conv else set()), ({off} if conv else set())
-    it = comp.generators[0].iter
-    rs.skip, rs.arity = _slice_info(it.slice) if isinstance(it, ast.Subscript) and isinstance(it.slice, ast.Slice) else (0, ("rest",))
-    rs.ok = rs.arity is not None
-    rb.keys = branch_keys(stage[0])
-    rb.via_fn = g
-    return None
-
-
-def written_tags(fn, b):
-    out = {}
-    for c in au.calls(fn):
-        if au.call_tail(c) == "write" and len(c.args) == 1:
-            parts = cc.flatten(c.args[0], b, c)
-            if parts and parts[0][0] == "lit" and parts[0][1].split():
-                out.setdefault(parts[0][1].split()[0], c)
-    return out
-
-
-def tagged_rules(ctx, fmt, mod, wfn, rfn, wblocks, rblocks, vertices_dim=3):
-    """E1 for formats whose rows start with a literal tag (obj) or have no tag at all (xyz, tet/off vertices)."""
-    rkey = keyed(rblocks)
-    n = 0
-    for wb in wblocks:
-        if isinstance(wb.tag, tuple):
-            continue
-        site = ctx.site(mod, wfn, wb.write)
-        if wb.tag is not None:
-            cands = rkey.get(wb.tag, [])
-            if not cands:
-                ctx.fail("C04-E1", site, f"{fmt}: rows tagged `{wb.tag}` are written but the importer has no branch for that tag",
-                         f"the {wb.kind} of a saved mesh are dropped on reload")
-                continue
-        else:
-            cands = [rb for rb in rblocks if rb.kind == wb.kind and not any(k[0] is not None for k in rb.keys)]
-            if not cands:
-                ctx.fail("C04-E1", site, f"{fmt}: importer block for {wb.kind} rows not found", "")
-                continue
-        rb = cands[0]
-        rs = ctx.site(mod, rb.fn, rb.node)
-        n += 1
-        tg = f"`{wb.tag}` " if wb.tag else ""
-        if wb.tag is not None:
-            for expr, const, pol, test in rb.keys:
-                if pol and const == wb.tag and isinstance(expr, ast.Subscript) and isinstance(au.const(expr.slice), int):
-                    ctx.check(au.const(expr.slice) == 0, "C04-E1", rs,
-                              f"{fmt}: the importer looks for the tag `{wb.tag}` in token {au.const(expr.slice)} of the line, it is "
-                              f"written first", "no line of a saved file is recognised as that element",
-                              note=f"{fmt}: tag `{wb.tag}` is the first token on both sides")
-        # a literal row `(tok[i], tok[j], ..)` takes consecutive tokens
-        known = [p_ for p_ in rb.spec.token_positions if p_ is not None]
-        if known and len(known) == len(rb.spec.token_positions):
-            ctx.check(known == list(range(known[0], known[0] + len(known))), "C04-E1", rs,
-                      f"{fmt}: {tg}{wb.kind} row is built from tokens {known}, not from consecutive tokens",
-                      "the exporter writes the indices of an element one after the other",
-                      note=f"{fmt}: {tg}row read from consecutive tokens")
-        ctx.check(rb.kind == wb.kind, "C04-E1", rs, f"{fmt}: {tg}rows are written from mesh.{wb.kind} and read into {rb.kind}",
-                  f"elements saved as {wb.kind} come back as {rb.kind}", note=f"{fmt}: {tg}rows are {wb.kind} on both sides")
-        wa, ra = writer_arity(wb), reader_arity(rb)
-        if wa == "all" and wb.kind == "vertices":
-            wa = vertices_dim
-        if ra == "rest" and wb.kind == "vertices" and wb.trailing == 0:
-            ra = wa
-        if ra == "rest" and wb.trailing == 0:
-            ra = wa
-        ctx.check(wa == ra and not wb.unknown, "C04-E1", rs,
-                  f"{fmt}: {tg}{wb.kind} rows are written with {wa} value(s) and parsed with {ra}",
-                  f"the importer keeps {ra} token(s) per row, the exporter writes {wa}"
-                  f"{' followed by ' + str(wb.trailing) + ' more token(s)' if wb.trailing else ''}",
-                  note=f"{fmt}: {tg}{wb.kind} rows carry {wa} value(s) on both sides")
-        ctx.check(rb.spec.skip == wb.tag_fields, "C04-E1", rs,
-                  f"{fmt}: {tg}{wb.kind} rows start with {wb.tag_fields} tag token(s), the importer skips {rb.spec.skip}",
-                  "a tag parsed as a value (or a value skipped as a tag) shifts every row",
-                  note=f"{fmt}: {wb.tag_fields} leading tag token(s) on both sides")
-    return n
-
-
-def run_obj(ctx, repo):
-    fmt, mod = "obj", IOMOD["obj"]
-    wfn, rfn = repo.func(mod, "export_obj"), repo.func(mod, "parse_obj_data")
-    ifn = repo.func(mod, "import_obj")
-    isite = ctx.site(mod, ifn)
-    ctx.check(any(au.call_tail(c) == "parse_obj_data" for c in au.calls(ifn)), "C04-E1", isite,
-              "import_obj does not parse the file with parse_obj_data", "")
-    prov, b, wblocks = writer_blocks(fmt, wfn)
-    rblocks = reader_blocks(repo, fmt, mod, rfn)
-    floor(ctx, "C04-E1 obj written blocks", len(wblocks), 3, ctx.site(mod, wfn))
-    floor(ctx, "C04-E1 obj parsed blocks", len(rblocks), 3, ctx.site(mod, rfn))
-    for wb in wblocks:
-        if wb.kind == "faces" and wb.unknown:
-            err = obj_face_writer(wb)
-            if err:
-                ctx.fail("C04-E1", ctx.site(mod, wfn, wb.write), f"obj: `f` line construction not found", err)
-                wblocks = [x for x in wblocks if x is not wb]
-    for rb in list(rblocks):
-        if rb.kind == "faces" and not rb.spec.ok:
-            err = obj_face_reader(repo, mod, rfn, rb)
-            if err:
-                ctx.fail("C04-E1", ctx.site(mod, rfn, rb.node), "obj: parsing of `f` lines into faces not found", err)
-                rblocks = [x for x in rblocks if x is not rb]
-    # every tag written is known to the importer
-    rtags = {}
-    for n_ in au.walk(rfn):
-        if isinstance(n_, ast.Compare) and len(n_.ops) == 1 and isinstance(n_.ops[0], ast.Eq):
-            for x in (n_.left, n_.comparators[0]):
-                if isinstance(x, ast.Constant) and isinstance(x.value, str):
-                    rtags[x.value] = n_
-    wt = written_tags(wfn, b)
-    floor(ctx, "C04-E1 obj tags", len(wt), 3, ctx.site(mod, wfn))
-    for t, c in sorted(wt.items()):
-        ctx.check(t in rtags, "C04-E1", ctx.site(mod, wfn, c), f"obj: lines tagged `{t}` are written but not recognised by the importer",
-                  "the data on those lines is lost on reload", note=f"obj: tag `{t}` known to the importer")
-    tagged_rules(ctx, fmt, mod, wfn, rfn, wblocks, rblocks)
-    coordinate_order(ctx, fmt, mod, wfn, wblocks)
-    nb = b1_writer_offsets(ctx, fmt, mod, wfn, prov, b) + b1_reader_offsets(ctx, fmt, mod, rblocks)
-    floor(ctx, "C04-B1 obj index sites", nb, 2, ctx.site(mod, wfn))
-    nl = l1_float_format(ctx, fmt, mod, wfn, prov, b) + l1_reader_floats(ctx, fmt, mod, rblocks)
-    floor(ctx, "C04-L1 obj coordinate sites", nl, 2, ctx.site(mod, wfn))
-    nv = v1_writer_order(ctx, fmt, mod, wfn, prov, b)
-    nv += v1_reader_order(ctx, fmt, mod, [f for q, f in repo.module(mod).funcs.items() if "<locals>" not in q], rblocks, wfn)
-    floor(ctx, "C04-V1 obj rows", nv, 1, ctx.site(mod, wfn))
-
-
-# =========================================================================== off / tet  (rows tagged with their length)
-TAG_DOMAIN = range(2, 9)      # finite tag domain over which importer branch tests are evaluated
-
-
-class _TagSubst(ast.NodeTransformer):
-    def __init__(self, key):
-        self.key = key
-
-    def generic_visit(self, node):
-        if isinstance(node, ast.expr) and au.norm(node) == self.key:
-            return ast.Name(id="__tag", ctx=ast.Load())
-        return super().generic_visit(node)
-
-
-def tag_expression(rblocks):
-    """The expression the importer branches on (left operand shared by the comparisons guarding the element
-    appends), e.g. `nvi`."""
-    count = {}
-    for rb in rblocks:
-        if rb.kind == "vertices":
-            continue
-        for test, pol in au.guards(rb.node):
-            for c in au.walk(test):
-                if isinstance(c, ast.Compare):
-                    for side in [c.left] + list(c.comparators):
-                        if not isinstance(side, (ast.Constant, ast.Tuple, ast.List, ast.Set)):
-                            count.setdefault(au.norm(side), [0, side])[0] += 1
-    if not count:
-        return None
-    return max(count.values(), key=lambda v: v[0])[1]
-
-
-def branch_reads_tag(rb, tag_e, t):
-    """True / False / None (a guard on the tag could not be evaluated) : does the importer block run for tag t?"""
-    key = au.norm(tag_e)
-    for test, pol in au.guards(rb.node):
-        mentions = any(au.norm(x) == key for x in au.walk(test) if isinstance(x, ast.expr))
-        if not mentions:
-            continue
-        v = cc.eval_test(_TagSubst(key).visit(cc.clean(test)), {"__tag": t})
-        if v is None:
-            return None
-        if bool(v) != pol:
-            return False
-    return True
-
-
-def arity_for_tag(rb, tag_e, t):
-    a = rb.spec.arity
-    if a is None:
-        return None
-    if a[0] == "const":
-        return a[1]
-    if a[0] == "rest":
-        return t
-    if a[0] == "symoff":
-        base = arity_for_tag(RBlock(spec=type("S", (), {"arity": ("sym", a[1])})(), b=rb.b, node=rb.node), tag_e, t)
-        return base + a[2] if isinstance(base, int) else ("sym", a[1])
-    if a[0] == "sym":
-        if isinstance(tag_e, ast.Name) and tag_e.id == a[1]:
-            return t
-        d = rb.b.reaching(a[1], rb.node)
-        if d is not None and au.norm(d) == au.norm(tag_e):
-            return t
-    return ("sym", a[1])
-
-
-def len_tagged_rules(ctx, fmt, mod, wfn, rfn, wblocks, rblocks, domain):
-    """Rows written as `len(row) v0 v1 ..`: for every tag t the exporter can write, which importer branch runs
-    (its test evaluated for t over a finite tag domain), and does it store the same kind with t vertices."""
-    n = 0
-    tag_e = tag_expression(rblocks)
-    if tag_e is not None and any(isinstance(wb.tag, tuple) for wb in wblocks):
-        # the tag is the first token of the row on both sides
-        rb0 = next(rb for rb in rblocks if rb.kind != "vertices")
-        te = cc.resolve(rb0.b, tag_e, at=rb0.node)
-        subs = [x for x in au.walk(te) if isinstance(x, ast.Subscript) and isinstance(au.const(x.slice), int)]
-        if subs:
-            ctx.check(au.const(subs[0].slice) == 0, "C04-E1", ctx.site(mod, rfn),
-                      f"{fmt}: the row tag is read from token {au.const(subs[0].slice)}, the exporter writes the length first",
-                      "a vertex index is taken for the number of vertices of the row", note=f"{fmt}: row tag = first token")
-    for wb in wblocks:
-        if not isinstance(wb.tag, tuple):
-            continue
-        site = ctx.site(mod, wfn, wb.write)
-        ctx.check(wb.fields == "all" and not wb.unknown, "C04-E1", site,
-                  f"{fmt}: a {wb.kind} row tagged with its length does not list all its vertices", "",
-                  note=f"{fmt}: {wb.kind} row = len, then every vertex")
-        arities = [wb.guard_n] if wb.guard_n is not None else [t for t in TAG_DOMAIN if t >= domain[wb.kind]]
-        dropped = []
-        for a in arities:
-            n += 1
-            cands, unknown = [], False
-            for rb in rblocks:
-                if rb.kind == "vertices":
-                    continue
-                r = True if tag_e is None else branch_reads_tag(rb, tag_e, a)
-                if r is None:
-                    unknown = True
-                elif r:
-                    cands.append(rb)
-            if unknown:
-                ctx.fail("C04-E1", ctx.site(mod, rfn), f"{fmt}: importer branch test on the row tag not understood",
-                         f"cannot evaluate the test for tag {a}")
-                break
-            if not cands:
-                dropped.append(a)
-                continue
-            rb = cands[0]
-            rs = ctx.site(mod, rb.fn, rb.node)
-            ra = arity_for_tag(rb, tag_e, a) if tag_e is not None else (a if rb.spec.arity == ("rest",) else reader_arity(rb))
-            ok_kind = rb.kind == wb.kind
-            ctx.check(ok_kind, "C04-E1", rs,
-                      f"{fmt}: a {wb.kind[:-1]} with {a} vertices is written with tag {a}, which the importer reads as a {rb.kind[:-1]}",
-                      f"saved {wb.kind} with {a} vertices come back as {rb.kind}: the loaded object is not the saved one "
-                      f"(and has the class its {rb.kind} imply)", note=f"{fmt}: tag {a} is a {wb.kind[:-1]} on both sides")
-            if ok_kind:
-                ctx.check(ra == a and rb.spec.skip == wb.tag_fields, "C04-E1", rs,
-                          f"{fmt}: a {wb.kind[:-1]} with {a} vertices is parsed with {ra} vertices after skipping {rb.spec.skip} token(s)",
-                          f"the exporter writes {wb.tag_fields} length token then {a} indices",
-                          note=f"{fmt}: tag {a}: {a} indices after {wb.tag_fields} tag token")
-        if dropped:
-            lab = ", ".join(map(str, dropped)) + (" (and more)" if dropped[-1] == TAG_DOMAIN[-1] else "")
-            ctx.fail("C04-E1", site,
-                     f"{fmt}: {wb.kind} with {lab} vertices are written (tag = len) but no importer branch reads those tags",
-                     f"a {wb.kind[:-1]} with that many vertices is silently dropped on reload")
-    return n
-
-
-def run_off(ctx, repo):
-    fmt, mod = "off", IOMOD["off"]
-    wfn, rfn = repo.func(mod, "export_off"), repo.func(mod, "parse_off_data")
-    ifn = repo.func(mod, "import_off")
-    ctx.check(any(au.call_tail(c) == "parse_off_data" for c in au.calls(ifn)), "C04-E1", ctx.site(mod, ifn),
-              "import_off does not parse the file with parse_off_data", "")
-    prov, b, wblocks = writer_blocks(fmt, wfn)
-    rblocks = reader_blocks(repo, fmt, mod, rfn)
-    floor(ctx, "C04-E1 off written blocks", len(wblocks), 2, ctx.site(mod, wfn))
-    floor(ctx, "C04-E1 off parsed blocks", len(rblocks), 2, ctx.site(mod, rfn))
-    # magic line
-    magic_w = [t for t in written_tags(wfn, b)]
-    magic_r = [x.value for x in au.walk(rfn) if isinstance(x, ast.Constant) and isinstance(x.value, str) and x.value.isupper()]
-    ctx.check(bool(magic_w) and magic_w[0] in magic_r, "C04-E1", ctx.site(mod, wfn),
-              f"off: first line written {magic_w[:1]} is not the header the importer requires {magic_r[:1]}",
-              "the importer raises on a missing header", note="off: OFF magic line on both sides")
-    tagged_rules(ctx, fmt, mod, wfn, rfn, wblocks, rblocks)
-    len_tagged_rules(ctx, fmt, mod, wfn, rfn, wblocks, rblocks, {"faces": 3, "cells": 4})
-    h1_flat_header(ctx, fmt, mod, wfn, rfn, prov, b, wblocks)
-    nb = b1_writer_offsets(ctx, fmt, mod, wfn, prov, b) + b1_reader_offsets(ctx, fmt, mod, rblocks)
-    floor(ctx, "C04-B1 off index sites", nb, 1, ctx.site(mod, wfn))
-    nl = l1_float_format(ctx, fmt, mod, wfn, prov, b) + l1_reader_floats(ctx, fmt, mod, rblocks)
-    floor(ctx, "C04-L1 off coordinate sites", nl, 2, ctx.site(mod, wfn))
-    nv = v1_writer_order(ctx, fmt, mod, wfn, prov, b)
-    nv += v1_reader_order(ctx, fmt, mod, [f for q, f in repo.module(mod).funcs.items() if "<locals>" not in q], rblocks, wfn)
-    floor(ctx, "C04-V1 off rows", nv, 1, ctx.site(mod, wfn))
-
-
-def run_tet(ctx, repo):
-    fmt, mod = "tet", IOMOD["tet"]
-    wfn, rfn = repo.func(mod, "export_tet"), repo.func(mod, "parse_tet_data")
-    ifn = repo.func(mod, "import_tet")
-    ctx.check(any(au.call_tail(c) == "parse_tet_data" for c in au.calls(ifn)), "C04-E1", ctx.site(mod, ifn),
-              "import_tet does not parse the file with parse_tet_data", "")
-    prov, b, wblocks = writer_blocks(fmt, wfn)
-    rblocks = reader_blocks(repo, fmt, mod, rfn)
-    floor(ctx, "C04-E1 tet written blocks", len(wblocks), 2, ctx.site(mod, wfn))
-    floor(ctx, "C04-E1 tet parsed blocks", len(rblocks), 2, ctx.site(mod, rfn))
-    tagged_rules(ctx, fmt, mod, wfn, rfn, wblocks, rblocks)
-    len_tagged_rules(ctx, fmt, mod, wfn, rfn, wblocks, rblocks, {"cells": 4, "faces": 3})
-    h1_flat_header(ctx, fmt, mod, wfn, rfn, prov, b, wblocks)
-    # the count is the first token of its header line (the importer takes token 0)
-    for kind, lf, c, tok in header_counts_writer(wfn, prov, b, wblocks):
-        ctx.check(tok == 0, "C04-H1", ctx.site(mod, wfn, c), f"tet: the number of {kind} is token #{tok} of its header line",
-                  "the importer parses the first token of each header line as the count",
-                  note=f"tet: count of {kind} leads its header line")
-    nb = b1_writer_offsets(ctx, fmt, mod, wfn, prov, b) + b1_reader_offsets(ctx, fmt, mod, rblocks)
-    floor(ctx, "C04-B1 tet index sites", nb, 1, ctx.site(mod, wfn))
-    nl = l1_float_format(ctx, fmt, mod, wfn, prov, b) + l1_reader_floats(ctx, fmt, mod, rblocks)
-    floor(ctx, "C04-L1 tet coordinate sites", nl, 2, ctx.site(mod, wfn))
-    nv = v1_writer_order(ctx, fmt, mod, wfn, prov, b)
-    nv += v1_reader_order(ctx, fmt, mod, [f for q, f in repo.module(mod).funcs.items() if "<locals>" not in q], rblocks, wfn)
-    floor(ctx, "C04-V1 tet rows", nv, 1, ctx.site(mod, wfn))
-
-
-def run_xyz(ctx, repo):
-    fmt, mod = "xyz", IOMOD["xyz"]
-    wfn, rfn = repo.func(mod, "export_xyz"), repo.func(mod, "import_xyz")
-    prov, b, wblocks = writer_blocks(fmt, wfn)
-    rblocks = reader_blocks(repo, fmt, mod, rfn)
-    floor(ctx, "C04-E1 xyz written blocks", len(wblocks), 1, ctx.site(mod, wfn))
-    floor(ctx, "C04-E1 xyz parsed blocks", len(rblocks), 1, ctx.site(mod, rfn))
-    # normals ride after the coordinates: 3 + 3 tokens, read back as [3:6]
-    rb_ = sym.Bindings(rfn)
-    stage = [(c, rowspec(c.args[0], rb_, c)) for c in au.calls(rfn)
-             if au.call_tail(c) == "append" and isinstance(c.func.value, ast.Name) and len(c.args) == 1]
-    for wb in wblocks:
-        extra = len(wb.unknown)
-        if extra:
-            wb.unknown = []
-            ok = any(rs.ok and rs.skip == wb.fields and rs.arity == ("const", extra) for c, rs in stage)
-            for c, rs in stage:
-                if rs.ok and rs.skip == wb.fields:
-                    for test, pol in au.guards(c):
-                        lens = [x for x in au.walk(test) if isinstance(x, ast.Call) and isinstance(x.func, ast.Name) and x.func.id == "len"]
-                        if len(lens) == 1:
-                            v = cc.eval_test(_TagSubst(au.norm(lens[0])).visit(cc.clean(test)), {"__tag": wb.fields + extra})
-                            if v is not None:
-                                ctx.check(bool(v) == pol, "C04-E1", ctx.site(mod, rfn, c),
-                                          f"xyz: a line of {wb.fields + extra} values (point and normal) does not pass the importer's test "
-                                          f"for lines carrying a normal", f"`{au.src(test)}` with {wb.fields + extra} tokens",
-                                          note=f"xyz: {wb.fields + extra}-token lines are read as point + normal")
-            ctx.check(ok, "C04-E1", ctx.site(mod, wfn, wb.write),
-                      f"xyz: {extra} extra value(s) are written after the {wb.fields} coordinates but the importer does not read "
-                      f"tokens [{wb.fields}:{wb.fields + extra}] back", "normals written next to the points are lost or mis-sliced",
-                      note=f"xyz: normals = tokens [{wb.fields}:{wb.fields + extra}] on both sides")
-            wb.trailing = extra
-    for wb in wblocks:
-        if not rblocks:
-            break
-        rb = rblocks[0]
-        ctx.check(reader_arity(rb) == wb.fields and rb.spec.skip == 0, "C04-E1", ctx.site(mod, rfn, rb.node),
-                  f"xyz: {wb.fields} coordinates are written per point, the importer keeps {reader_arity(rb)} after skipping {rb.spec.skip}",
-                  "", note="xyz: 3 coordinates per point on both sides")
-    coordinate_order(ctx, fmt, mod, wfn, wblocks)
-    nl = l1_float_format(ctx, fmt, mod, wfn, prov, b) + l1_reader_floats(ctx, fmt, mod, rblocks)
-    floor(ctx, "C04-L1 xyz coordinate sites", nl, 2, ctx.site(mod, wfn))
-
-
-# =========================================================================== geogram
-def chunk_writes(fn, b):
-    """[(write call, kind '[ATTR]'|'[ATTS]'|'[HEAD]', header lines (each a list of parts))] of an exporter."""
-    out = []
-    for c in sorted((c for c in au.calls(fn) if au.call_tail(c) == "write" and len(c.args) == 1),
-                    key=lambda c: (c.lineno, c.col_offset)):
-        parts = cc.flatten(c.args[0], b, c)
-        if parts and parts[0][0] == "lit" and parts[0][1].startswith("["):
-            lines = cc.lines_of(parts)
-            tag = lines[0][0][1].strip() if lines and lines[0] and lines[0][0][0] == "lit" else None
-            out.append((c, tag, lines))
-    return out
-
-
-def line_literal(line):
-    """text of a header line if it is fully literal (quotes stripped separately by the caller)"""
-    if len(line) == 1 and line[0][0] == "lit":
-        return line[0][1].strip()
-    return None
-
-
-def writer_type_fields(repo):
-    """In export_attribute: line index / quoting of each role of the [ATTR] header."""
-    fn = repo.func(GEO, "export_attribute")
-    b = sym.Bindings(fn)
-    header = None
-    for c, tag, lines in chunk_writes(fn, b):
-        if tag == "[ATTR]":
-            header = (c, cc.flatten(c.args[0], b, c))
-            break
-    if header is None:
-        return fn, None, None, None
-    c, parts = header
-    roles = {}
-    line = 0
-    for i, p in enumerate(parts):
-        if p[0] == "lit":
-            line += p[1].count("\n")
-            continue
-        if p[0] != "leaf":
-            continue
-        e = p[1].expr
-        prev = parts[i - 1][1] if i and parts[i - 1][0] == "lit" else ""
-        nxt = parts[i + 1][1] if i + 1 < len(parts) and parts[i + 1][0] == "lit" else ""
-        quoted = prev.endswith('"') and nxt.startswith('"')
-        role = None
-        if isinstance(e, ast.Call) and au.call_tail(e) in ("to_string", "byte_size"):
-            role = au.call_tail(e)
-        elif isinstance(e, ast.Attribute) and e.attr == "elemsize":
-            role = "elemsize"
-        elif isinstance(e, ast.Name) and e.id in au.params(fn):
-            role = "param:" + e.id
-        if role:
-            roles[role] = (line, quoted, p[1])
-    n_lines = sum(p[1].count("\n") for p in parts if p[0] == "lit")
-    return fn, roles, n_lines, c
-
-
-def chunk_reader_fields(repo):
-    """Chunk.__init__: {field: (line index, conversion tail)} and the first payload line."""
-    fn = repo.func(GEO, "Chunk.__init__")
-    data = au.params(fn, skip_self=True)[0]
-    fields, start = {}, set()
-    for st in au.stmts(fn.body):
-        tg = None
-        if isinstance(st, ast.Assign) and len(st.targets) == 1:
-            tg, val = st.targets[0], st.value
-        elif isinstance(st, ast.AnnAssign) and st.value is not None:
-            tg, val = st.target, st.value
-        if tg is None or not au.is_self_attr(tg):
-            continue
-        subs = [x for x in au.walk(val) if isinstance(x, ast.Subscript) and isinstance(x.value, ast.Name) and x.value.id == data]
-        if len(subs) != 1:
-            continue
-        sub = subs[0]
-        if isinstance(sub.slice, ast.Slice):
-            if sub.slice.upper is None and isinstance(au.const(sub.slice.lower), int):
-                start.add(au.const(sub.slice.lower))
-            conv = None
-            if isinstance(val, (ast.ListComp, ast.GeneratorExp)):
-                conv = au.src(val.elt)
-            fields.setdefault(tg.attr + "[]", []).append((au.const(sub.slice.lower), conv, st))
-            continue
-        k = au.const(sub.slice)
-        conv = au.call_tail(val) if isinstance(val, ast.Call) else None
-        fields[tg.attr] = (k, conv, st)
-    return fn, fields, start
-
-
-def reader_special_chunks(repo, rfn):
-    """Branches `chk.container == Chunk.Container.X and chk.name == "N"` of the importer main loop:
-    [(member name X, chunk name without quotes, If node, asserted arity, kinds appended)]"""
-    out = []
-    for st in au.stmts(rfn.body):
-        if not isinstance(st, ast.If):
-            continue
-        X = N = None
-        tests = st.test.values if isinstance(st.test, ast.BoolOp) and isinstance(st.test.op, ast.And) else [st.test]
-        for t in tests:
-            if isinstance(t, ast.Compare) and len(t.ops) == 1 and isinstance(t.ops[0], ast.Eq):
-                l, r = t.left, t.comparators[0]
-                if isinstance(l, ast.Attribute) and l.attr == "container" and isinstance(r, ast.Attribute):
-                    X = r.attr
-                if isinstance(l, ast.Attribute) and l.attr == "name" and isinstance(r, ast.Constant) and isinstance(r.value, str):
-                    N = r.value
-        if X is None or N is None:
-            continue
-        arity = None
-        for s in st.body:
-            if isinstance(s, ast.Assert) and isinstance(s.test, ast.Compare) and isinstance(s.test.left, ast.Attribute) \
-                    and isinstance(au.const(s.test.comparators[0]), int) and isinstance(s.test.ops[0], ast.Eq):
-                arity = (s.test.left.attr, au.const(s.test.comparators[0]))
-        kinds = [container_append_kind(c) for s in st.body for c in au.calls(s) if container_append_kind(c)]
-        out.append((X, N.strip('"'), st, arity, kinds))
-    return out
-
-
-def arity_tables(repo, rfn):
-    """For the variable-arity kinds: the chunk name whose presence gives the per-element arity, and the arity assumed
-    when it is absent: {kind: (chunk name, default arity, node)}"""
-    b = sym.Bindings(rfn)
-    out = {}
-    for c in au.calls(rfn):
-        kind = container_append_kind(c)
-        if kind not in ("faces", "cells") or len(c.args) != 1:
-            continue
-        row = cc.resolve(b, c.args[0], at=c)
-        if not (isinstance(row, (ast.ListComp, ast.GeneratorExp)) and len(row.generators) == 1):
-            continue
-        it = row.generators[0].iter
-        if not (isinstance(it, ast.Call) and au.call_tail(it) == "range" and len(it.args) == 1
-                and isinstance(it.args[0], ast.Subscript) and isinstance(it.args[0].value, ast.Name)):
-            continue
-        table = it.args[0].value.id
-        # default: table = [k] * n   under `len(table) == 0`
-        default, name, node = None, None, None
-        for st in au.stmts(rfn.body):
-            if isinstance(st, ast.Assign) and len(st.targets) == 1 and isinstance(st.targets[0], ast.Name) \
-                    and st.targets[0].id == table and isinstance(st.value, ast.BinOp) and isinstance(st.value.op, ast.Mult):
-                for side in (st.value.left, st.value.right):
-                    if isinstance(side, ast.List) and len(side.elts) == 1 and isinstance(au.const(side.elts[0]), int):
-                        default, node = au.const(side.elts[0]), st
-        # filler: table.append(..) under `chk.name == "<chunk name>"`
-        names, loop_names = set(), set()
-        for a in au.calls(rfn):
-            if au.call_tail(a) == "append" and isinstance(a.func.value, ast.Name) and a.func.value.id == table:
-                for test, pol in au.guards(a):
-                    if not pol:
-                        continue
-                    for t in au.walk(test):
-                        if isinstance(t, ast.Compare) and isinstance(t.left, ast.Attribute) and t.left.attr == "name" \
-                                and isinstance(t.comparators[0], ast.Constant) and isinstance(t.comparators[0].value, str):
-                            nm = t.comparators[0].value.strip('"')
-                            names.add(nm)
-                            owner = next((i_ for i_ in au.ancestors(a) if isinstance(i_, ast.If) and i_.test is test), None)
-                            in_loop = owner is not None and any(
-                                isinstance(x, ast.For) and any(y is owner for y in au.ancestors(x)) for x in au.ancestors(a))
-                            if in_loop:
-                                loop_names.add(nm)
-        main = sorted(loop_names) or sorted(names)
-        extra = sorted(n_ for n_ in names if n_ not in main)
-        # the container whose element count bounds the fill loop (`range(container_sizes[Chunk.Container.X] - 1)`)
-        cont = None
-        for a in au.calls(rfn):
-            if au.call_tail(a) == "append" and isinstance(a.func.value, ast.Name) and a.func.value.id == table:
-                for lp in [x for x in au.ancestors(a) if isinstance(x, ast.For)][:1]:
-                    for x in au.walk(lp.iter):
-                        if isinstance(x, ast.Subscript) and isinstance(x.slice, ast.Attribute):
-                            cont = cont or x.slice.attr
-        out[kind] = (main, default, node, table, extra, cont)
-        continue
-        out[kind] = (sorted(names), default, node, table)
-    return out
-
-
-def payload_after(call):
-    """The loop that follows a chunk header write in the same block (None if the next statement is not a loop)."""
-    st = au.enclosing_stmt(call)
-    blk, _ = au.enclosing_block(st)
-    if not blk:
-        return None
-    idx = [id(x) for x in blk].index(id(st))
-    for nxt in blk[idx + 1:]:
-        if isinstance(nxt, ast.For):
-            return nxt
-        if not isinstance(nxt, (ast.Assign, ast.AnnAssign)):
-            return None
-    return None
-
-
-def values_per_iteration(loop, b):
-    """(number of values written per outer iteration | ('nested', inner iter src), leaves, write calls)"""
-    ws = [c for c in au.calls(loop) if au.call_tail(c) == "write" and len(c.args) == 1]
-    n, leaves = 0, []
-    nested = None
-    for w in ws:
-        inner = [a for a in au.ancestors(w) if isinstance(a, ast.For) and a is not loop and any(x is a for x in au.walk(loop))]
-        parts = cc.flatten(w.args[0], b, w)
-        k = sum(1 for p in parts if p[0] == "leaf")
-        leaves += [p[1] for p in parts if p[0] == "leaf"]
-        if inner:
-            nested = inner[0]
-        n += k
-    return n, nested, leaves, ws
-
-
-def eval_type_guard(test, member, extra=None):
-    """Value of a condition on the attribute type (`x.type == Attribute.Type.Bool`, `in (..)`, and/or/not) when the
-    type is the enum member named `member`; `extra(test)` may decide other atoms; None = not about the type."""
-    if isinstance(test, ast.BoolOp):
-        vals = [eval_type_guard(v, member, extra) for v in test.values]
-        return _and3(vals) if isinstance(test.op, ast.And) else _or3(vals)
-    if isinstance(test, ast.UnaryOp) and isinstance(test.op, ast.Not):
-        v = eval_type_guard(test.operand, member, extra)
-        return None if v is None else (not v)
-    if isinstance(test, ast.Compare) and len(test.ops) == 1:
-        l, r, op = test.left, test.comparators[0], test.ops[0]
-
-        def mem(x):
-            if isinstance(x, ast.Attribute) and isinstance(x.value, ast.Attribute) and x.value.attr == "Type" \
-                    and x.attr in ("Bool", "Int", "Float", "Complex", "String"):
-                return x.attr
-            return None
-
-        def is_type_expr(x):
-            return isinstance(x, ast.Attribute) and x.attr in ("type", "data_type")
-        for a, c in ((l, r), (r, l)):
-            if is_type_expr(a):
-                if mem(c) is not None and isinstance(op, (ast.Eq, ast.NotEq, ast.Is, ast.IsNot)):
-                    v = mem(c) == member
-                    return v if isinstance(op, (ast.Eq, ast.Is)) else (not v)
-                if isinstance(c, (ast.Tuple, ast.List, ast.Set)) and all(mem(e) for e in c.elts) and isinstance(op, (ast.In, ast.NotIn)) and a is l:
-                    v = member in [mem(e) for e in c.elts]
-                    return v if isinstance(op, ast.In) else (not v)
-    return extra(test) if extra else None
-
-
-def branch_runs(node, member, stop=None, extra=None):
-    """True / False / None: can `node` execute when the attribute type is `member` (guards not about the type ignored)."""
-    vals = []
-    for t, pol in au.guards(node, stop=stop):
-        v = eval_type_guard(t, member, extra)
-        vals.append(None if v is None else (v == pol))
-    return _and3(vals or [True])
-
-
-def payload_conversions(fields):
-    """{type member name: source of the conversion applied to each payload token in Chunk.__init__}"""
-    out = {}
-    for T in ("Bool", "Int", "Float", "Complex", "String"):
-        for lo, conv, st in fields.get("data[]", []):
-            if branch_runs(st, T) is not False:
-                out[T] = conv or "<raw>"
-                out[T + ":stmt"] = st
-                break
-    return out
-
-
-def _unquote(txt):
-    return txt.strip().strip('"')
-
-
-def _range_arg(loop):
-    it = loop.iter
-    if isinstance(it, ast.Call) and au.call_tail(it) == "range" and len(it.args) == 1:
-        return it.args[0]
-    return None
-
-
-def geogram_reader_tables(ctx, repo, rfn):
-    """Importer-side tables: Chunk fields by role, connectivity branches, container -> mesh field."""
-    mod = GEO
-    cfn, fields, start = chunk_reader_fields(repo)
-    special = reader_special_chunks(repo, rfn)
-    member_field = {}
-    for n_ in au.walk(rfn):
-        if isinstance(n_, ast.Dict) and n_.keys and all(isinstance(k, ast.Attribute) for k in n_.keys) \
-                and all(isinstance(v, ast.Attribute) for v in n_.values):
-            member_field = {k.attr: v.attr for k, v in zip(n_.keys, n_.values)}
-    role_field = {}
-    for f_, v in fields.items():
-        if f_.endswith("[]"):
-            continue
-        k, conv, st = v
-        if conv == "from_string":
-            role_field["container" if "Container" in au.src(st.value.func) else "type"] = f_
-    for c in au.calls(rfn):
-        if au.call_tail(c) == "create_attribute" and len(c.args) >= 3 and isinstance(c.args[2], ast.Attribute) \
-                and isinstance(c.args[1], ast.Attribute) and c.args[1].attr == role_field.get("type"):
-            role_field["arity"] = c.args[2].attr
-            nm = [x.attr for x in au.walk(c.args[0]) if isinstance(x, ast.Attribute) and x.attr in fields]
-            if nm:
-                role_field["name"] = nm[0]
-    return cfn, fields, start, special, member_field, role_field
-
-
-def g1_header_layout(ctx, repo, wfn, afn, fields, start, role_field):
-    """[ATTR] header written by export_attribute vs the lines Chunk.__init__ indexes; payload shape; Bool text."""
-    mod = GEO
-    asite = ctx.site(mod, afn)
-    _, roles, n_lines, hdr = writer_type_fields(repo)
-    if not roles or not {"container", "type", "arity", "name"} <= set(role_field):
-        ctx.fail("C04-G1", asite, "geogram: [ATTR] header layout not found",
-                 f"writer roles {sorted(roles or [])}, reader roles {sorted(role_field)}")
-        return roles, None
-    calls = [c for c in au.calls(wfn) if au.call_tail(c) == "export_attribute"]
-    floor(ctx, "C04-G1 export_attribute call sites", len(calls), 1, asite)
-    aps = au.params(afn)
-    lit_pos = {i for c in calls for i, a in enumerate(c.args) if isinstance(a, ast.Constant) and isinstance(a.value, str)}
-    cont_param = aps[min(lit_pos)] if len(lit_pos) == 1 else None
-    key_pos = set()
-    for c in calls:
-        lp = [a for a in au.ancestors(c) if isinstance(a, ast.For)]
-        if lp and isinstance(lp[0].target, ast.Name):
-            key_pos |= {i for i, a in enumerate(c.args) if isinstance(a, ast.Name) and a.id == lp[0].target.id}
-    name_param = aps[min(key_pos)] if len(key_pos) == 1 else None
-    pairs = [("type", "to_string"), ("arity", "elemsize"), ("container", "param:" + str(cont_param)),
-             ("name", "param:" + str(name_param))]
-    for rrole, wrole in pairs:
-        rk = fields[role_field[rrole]][0]
-        wl = roles.get(wrole, (None,))[0]
-        ctx.check(wl == rk, "C04-G1", asite,
-                  f"geogram: the {rrole} of an attribute is written on header line {wl} and read from line {rk}",
-                  f"Chunk.__init__ takes self.{role_field[rrole]} from line {rk} of the chunk; a user attribute comes back "
-                  f"with the wrong {rrole} or fails to parse", note=f"geogram [ATTR] header: {rrole} on line {rk}")
-    ctx.check(start == {n_lines}, "C04-G1", asite,
-              f"geogram: attribute values start on line {n_lines} of the chunk, the importer reads them from line {sorted(start)}",
-              "header lines parsed as values (or values skipped)", note=f"geogram [ATTR] payload starts on line {n_lines}")
-    # payload: dense, element-major, `elemsize` values per element
-    ab = sym.Bindings(afn)
-    outer = [st for st in afn.body if isinstance(st, ast.For)]
-    ok, nvals = False, 0
-    if len(outer) == 1 and isinstance(_range_arg(outer[0]), ast.Name) and _range_arg(outer[0]).id in aps \
-            and isinstance(outer[0].target, ast.Name):
-        i = outer[0].target.id
-        ok = True
-        for w in [c for c in au.calls(outer[0]) if au.call_tail(c) == "write" and len(c.args) == 1]:
-            parts = cc.flatten(w.args[0], ab, w)
-            lv = [p_[1] for p_ in parts if p_[0] == "leaf"]
-            inner = [a for a in au.ancestors(w) if isinstance(a, ast.For) and a is not outer[0]
-                     and any(x is a for x in au.walk(outer[0]))]
-            for lf in lv:
-                nvals += 1
-                subs = [x for x in au.walk(lf.expr) if isinstance(x, ast.Subscript)]
-                idx = [au.src(x.slice) for x in sorted(subs, key=lambda x: len(au.src(x)))]
-                if inner:
-                    j = inner[0].target.id if isinstance(inner[0].target, ast.Name) else None
-                    good = idx[:2] == [i, j] and _range_arg(inner[0]) is not None \
-                        and au.same(_range_arg(inner[0]), roles["elemsize"][2].expr)
-                else:
-                    good = idx[:1] == [i] and len(idx) == 1
-                ok = ok and good and len(lv) == 1
-    ctx.check(ok and nvals >= 2, "C04-G1", asite,
-              "geogram: export_attribute does not write attr[i] (or attr[i][0..elemsize-1]) for every i in range(size)",
-              "the importer assigns value group k to element k; a sparse / transposed dump attaches values to the wrong elements",
-              note="geogram: attribute payload is dense and element-major")
-    # value text per type: Bool through int() (the importer parses bool(int(token))), Int/Float never through int()/round()
-    reader_conv = payload_conversions(fields)
-    nb = 0
-    if len(outer) == 1:
-        size_expr = roles["elemsize"][2].expr
-
-        def size_atom(n_):
-            def ex(t):
-                if any(au.same(x, size_expr) for x in au.walk(t)):
-                    return cc.eval_test(_TagSubst(au.norm(size_expr)).visit(cc.clean(t)), {"__tag": n_})
-                return None
-            return ex
-        for lf in cc.leaves(afn, ab):
-            if not any(a is outer[0] for a in au.ancestors(lf.node)):
-                continue
-            if lf.how == "str" or not any(isinstance(x, ast.Subscript) for x in au.walk(lf.expr)):
-                continue
-            as_int = isinstance(lf.expr, ast.Call) and isinstance(lf.expr.func, ast.Name) and lf.expr.func.id in ("int", "round")
-            nb += 1
-            site = ctx.site(mod, afn, lf.node)
-            if reader_conv.get("Bool") and "int(" in reader_conv["Bool"] and branch_runs(lf.node, "Bool", stop=outer[0]) is not False:
-                ctx.check(as_int, "C04-A1", site,
-                          f"geogram: a Bool attribute value may be written as `{au.src(lf.expr)}` (True/False), the importer "
-                          f"parses bool(int(token))", "int('True') raises: a mesh with a Bool attribute cannot be reloaded",
-                          note="geogram: Bool values written through int()")
-            for T in ("Float", "Int"):
-                if branch_runs(lf.node, T, stop=outer[0]) is not False:
-                    ctx.check(not as_int, "C04-A1", site,
-                              f"geogram: a {T} attribute value may be written as `{au.src(lf.expr)}`",
-                              "int() / round() truncates the value (2.5 is saved as 2)",
-                              note=f"geogram: {T} values written as they are")
-            # scalar form only for arity 1, component loop for every other arity
-            inner = [a for a in au.ancestors(lf.node) if isinstance(a, ast.For) and a is not outer[0]
-                     and any(x is a for x in au.walk(outer[0]))]
-            r1 = _and3([(lambda v, pol: None if v is None else (bool(v) == pol))(size_atom(1)(t), pol)
-                        for t, pol in au.guards(lf.node, stop=outer[0])] or [True])
-            r2 = _and3([(lambda v, pol: None if v is None else (bool(v) == pol))(size_atom(2)(t), pol)
-                        for t, pol in au.guards(lf.node, stop=outer[0])] or [True])
-            if inner:
-                ctx.check(r2 is not False, "C04-G1", site,
-                          "geogram: the per-component write of export_attribute does not run for attributes of arity 2 or more",
-                          "vector attributes are written in the scalar form (`[1. 2.]` on one line) or not at all",
-                          note="geogram: component loop runs for arity >= 2")
-            else:
-                ctx.check(r1 is not False and r2 is False, "C04-G1", site,
-                          "geogram: the scalar write of export_attribute is not selected exactly for attributes of arity 1",
-                          f"runs for arity 1: {r1}, for arity 2: {r2}; a vector is written as one token / a scalar is indexed",
-                          note="geogram: scalar form iff arity 1")
-    floor(ctx, "C04-A1 attribute value sites", nb, 2, asite)
-    return roles, cont_param
-
-
-def g1_import_store(ctx, repo, iafn, role_field):
-    """import_attribute stores, for every element, the scalar (arity 1; a value equal to the default may be skipped)
-    or the full group of `arity` values (arity > 1, never filtered component-wise)."""
-    mod = GEO
-    site = ctx.site(mod, iafn)
-    ps = au.params(iafn)
-    arity_f = role_field.get("arity")
-    b = sym.Bindings(iafn)
-    stores = [st for st in au.stmts(iafn.body) if isinstance(st, ast.Assign) and len(st.targets) == 1
-              and isinstance(st.targets[0], ast.Subscript) and isinstance(st.targets[0].value, ast.Name)
-              and len(ps) > 1 and st.targets[0].value.id == ps[1]]
-    if not stores or arity_f is None:
-        ctx.fail("C04-G1", site, "geogram: import_attribute does not store values with `attr[i] = ...`", "")
-        return
-
-    def is_arity(x):
-        return isinstance(x, ast.Attribute) and x.attr == arity_f
-
-    def runs(st, n_):
-        """(can the store run for arity n_?, value-dependent atoms deciding it)"""
-        can, filters = True, []
-        for t, pol in au.guards(st):
-            ar = [x for x in au.walk(t) if is_arity(x)]
-            key = au.norm(ar[0]) if ar else "<none>"
-            outs = {_eval_mixed(t, key, n_, u) for u in (True, False)}
-            if None in outs:
-                continue
-            if pol not in outs:
-                can = False
-            elif len(outs) == 2:
-                filters += [(q, pol) for q in _value_atoms(t, key)]
-        return can, filters
-
-    def scalar(st):
-        v = st.value
-        return isinstance(v, ast.Subscript) and au.const(v.slice) == 0
-
-    for n_ in (1, 2, 3):
-        can = [(st, *runs(st, n_)) for st in stores]
-        live = [(st, r, f) for st, r, f in can if r]
-        if n_ == 1:
-            ok = bool(live) and all(scalar(st) for st, r, f in live)
-            ctx.check(ok, "C04-G1", site,
-                      "geogram: for an attribute of arity 1 import_attribute does not store the single value of each element",
-                      f"stores reachable for arity 1: {[au.src(st) for st, r, f in live]}",
-                      note="geogram: arity 1 -> attr[i] = value")
-        else:
-            okv = bool(live) and all(not scalar(st) for st, r, f in live)
-            filt = [q for st, r, f in live for q in f]
-            bad_f = [q for q in filt if not _harmless_filter(q)]
-            ctx.check(okv and not bad_f, "C04-G1", site,
-                      f"geogram: for an attribute of arity {n_} import_attribute does not store every group of {n_} values as read",
-                      f"stores reachable: {[au.src(st) for st, r, f in live]}; value-dependent conditions: "
-                      f"{[au.src(q[0] if isinstance(q, tuple) else q) for q in bad_f]}: a vector with some default component "
-                      f"(0 / False) or a scalar slot is dropped or mis-stored", note=f"geogram: arity {n_} -> attr[i] = group")
-
-
-def _eval_mixed(t, key, n_, u):
-    """evaluate a boolean expression whose atoms are arity comparisons (decided for arity n_) or value filters (= u)"""
-    if isinstance(t, ast.BoolOp):
-        vals = [_eval_mixed(v, key, n_, u) for v in t.values]
-        if any(v is None for v in vals):
-            return None
-        return all(vals) if isinstance(t.op, ast.And) else any(vals)
-    if isinstance(t, ast.UnaryOp) and isinstance(t.op, ast.Not):
-        v = _eval_mixed(t.operand, key, n_, u)
-        return None if v is None else (not v)
-    if any(au.norm(x) == key for x in ast.walk(t) if isinstance(x, ast.expr)):
-        v = cc.eval_test(_TagSubst(key).visit(cc.clean(t)), {"__tag": n_})
-        return None if v is None else bool(v)
-    return u
-
-
-def _value_atoms(t, key):
-    """maximal sub-expressions of a condition that do not mention the arity"""
-    if isinstance(t, ast.BoolOp):
-        return [a for v in t.values for a in _value_atoms(v, key)]
-    if isinstance(t, ast.UnaryOp) and isinstance(t.op, ast.Not):
-        return _value_atoms(t.operand, key)
-    if any(au.norm(x) == key for x in ast.walk(t) if isinstance(x, ast.expr)):
-        return []
-    return [t]
-
-
-def _harmless_filter(q):
-    """a value filter that only skips groups entirely equal to the default: `(val != default).any()` / `any(..)`"""
-    t, pol = q if isinstance(q, tuple) else (q, True)
-    src_ = au.src(t)
-    if not pol:
-        return False
-    if isinstance(t, ast.Call) and au.call_tail(t) == "any":
-        return "!=" in src_
-    return False
-
-
-def g1_reader_ptr_tables(ctx, repo, rfn, tables):
-    """Importer side of the *_ptr chunks: sizes are differences of consecutive offsets, the last one up to the number
-    of corners; without the chunk, offsets are the running sum of the default size starting at 0."""
-    mod = GEO
-    site = ctx.site(mod, rfn)
-    b = sym.Bindings(rfn)
-    for kind, (names, default, node, table, extra, cont) in sorted(tables.items()):
-        apps = [a for a in au.calls(rfn) if au.call_tail(a) == "append" and isinstance(a.func.value, ast.Name)
-                and a.func.value.id == table and any(pol and names and names[0] in au.src(t) for t, pol in au.guards(a))]
-        in_loop = [a for a in apps if any(isinstance(x, ast.For) for x in au.ancestors(a)) and
-                   any(isinstance(x, ast.For) and any(names[0] in au.src(t) for t, pol in au.guards(x)) for x in au.ancestors(a))]
-        last = [a for a in apps if a not in in_loop]
-        ok = False
-        why = "fill loop / last size not found"
-        if len(in_loop) == 1 and len(last) == 1:
-            a = in_loop[0]
-            lp = next(x for x in au.ancestors(a) if isinstance(x, ast.For))
-            i = lp.target.id if isinstance(lp.target, ast.Name) else None
-            e = a.args[0]
-            rng = _range_arg(lp)
-            good = isinstance(e, ast.BinOp) and isinstance(e.op, ast.Sub) and i and rng is not None \
-                and all(isinstance(x, ast.Subscript) and isinstance(x.value, ast.Attribute) and x.value.attr == "data" for x in (e.left, e.right))
-            if good:
-                pl, pr = sym.to_poly(e.left.slice), sym.to_poly(e.right.slice)
-                good = pl - pr == sym.Poly.const(1) and pr == sym.Poly.atom(i)
-                pr_ = sym.to_poly(rng)
-                cnt = [x for x in au.walk(rng) if isinstance(x, ast.Subscript) and isinstance(x.slice, ast.Attribute)]
-                good = good and len(cnt) == 1 and cnt[0].slice.attr == cont and \
-                    pr_ == sym.to_poly(cnt[0]) - 1
-                why = f"size i is `{au.src(e)}` for i in range({au.src(rng)})"
-            l = last[0].args[0]
-            good2 = isinstance(l, ast.BinOp) and isinstance(l.op, ast.Sub) and isinstance(l.left, ast.Subscript) \
-                and isinstance(l.left.slice, ast.Attribute) and l.left.slice.attr.endswith("CORNERS") \
-                and isinstance(l.right, ast.Subscript) and isinstance(l.right.value, ast.Attribute) and l.right.value.attr == "data" \
-                and au.const(l.right.slice) == -1
-            ok = bool(good and good2)
-            if good and not good2:
-                why = f"last size is `{au.src(l)}`"
-        ctx.check(ok, "C04-G1", site,
-                  f"geogram: the sizes of {kind} are not recovered from `{names[0] if names else '?'}` as ptr[i+1] - ptr[i] "
-                  f"(last: number of corners - ptr[-1])", why, note=f"geogram: sizes of {kind} = differences of consecutive offsets")
-        # default offsets
-        ok = False
-        for st in au.stmts(rfn.body):
-            if isinstance(st, ast.For) and isinstance(st.iter, ast.Name) and st.iter.id == table and isinstance(st.target, ast.Name):
-                c = st.target.id
-                app = [x for x in st.body if isinstance(x, ast.Expr) and isinstance(x.value, ast.Call) and au.call_tail(x.value) == "append"
-                       and len(x.value.args) == 1 and isinstance(x.value.args[0], ast.Name)]
-                if len(app) != 1:
-                    continue
-                P = app[0].value.args[0].id
-                init = b.reaching(P, st)
-                incs = [(k, x) for k, x in enumerate(st.body) if P in [n_ for t in au.assign_targets(x) for n_ in au.assigned_names(t)]]
-                if len(incs) != 1:
-                    continue
-                k, inc = incs[0]
-                delta = sym.to_poly(inc.value) if isinstance(inc, ast.AugAssign) and isinstance(inc.op, ast.Add) else (
-                    sym.to_poly(inc.value) - sym.Poly.atom(P) if isinstance(inc, ast.Assign) else None)
-                ok = isinstance(init, ast.Constant) and init.value == 0 and delta == sym.Poly.atom(c) \
-                    and k > st.body.index(app[0])
-        ctx.check(ok, "C04-G1", site,
-                  f"geogram: without a size chunk the offsets of {kind} are not the running sum of the default size starting at 0",
-                  f"element i of a file without `{names[0] if names else '?'}` starts at corner {default}*i",
-                  note=f"geogram: default offsets of {kind} = running sum from 0")
-
-
-def g1_attribute_loops(ctx, repo, wfn, names_written):
-    """`for key in mesh.K.attributes`: every attribute is exported, except the ones written separately above."""
-    mod = GEO
-    b = sym.Bindings(wfn)
-    for lp in au.stmts(wfn.body):
-        if not (isinstance(lp, ast.For) and isinstance(lp.iter, ast.Attribute) and lp.iter.attr == "attributes"
-                and isinstance(lp.target, ast.Name)):
-            continue
-        calls = [c for c in au.calls(lp) if au.call_tail(c) == "export_attribute"]
-        if not calls:
-            continue
-        key = lp.target.id
-        site = ctx.site(mod, wfn, lp)
-        skipped, bad = [], None
-        # every condition under which an attribute is NOT exported must single out attributes by their name (any spelling:
-        # `if key == 'x': continue`, `if key != 'x': export`, `if key not in (...)`)
-        for c in calls:
-            for t, pol in au.guards(c, stop=lp):
-                if isinstance(t, ast.Compare) and len(t.ops) == 1 and isinstance(t.left, ast.Name) and t.left.id == key:
-                    op, r = t.ops[0], t.comparators[0]
-                    if isinstance(r, ast.Constant) and (isinstance(op, ast.Eq) and not pol or isinstance(op, ast.NotEq) and pol):
-                        skipped.append(r.value)
-                        continue
-                    if isinstance(r, (ast.Tuple, ast.List, ast.Set)) and (isinstance(op, ast.In) and not pol or isinstance(op, ast.NotIn) and pol):
-                        skipped += [au.const(e) for e in r.elts]
-                        continue
-                elif isinstance(t, ast.Compare) and len(t.ops) == 1 and isinstance(t.comparators[0], ast.Name) and t.comparators[0].id == key \
-                        and isinstance(t.left, ast.Constant) and (isinstance(t.ops[0], ast.Eq) and not pol or isinstance(t.ops[0], ast.NotEq) and pol):
-                    skipped.append(t.left.value)
-                    continue
-                bad = ("" if pol else "not ") + au.src(t)
-        gs = []
-        handled = all(any(str(nm) == w.split("::")[-1] for w in names_written) for nm in skipped)
-        ctx.check(bad is None and not gs and handled, "C04-G1", site,
-                  f"geogram: not every attribute of mesh.{lp.iter.value.attr if isinstance(lp.iter.value, ast.Attribute) else '?'} "
-                  f"is exported (only the ones written as their own chunk may be skipped)",
-                  f"skip condition {bad or gs or skipped}: user attributes are missing from the file",
-                  note=f"geogram: all attributes of {au.src(lp.iter)} exported, skipping {skipped}")
-
-
-def g1_import_stride(ctx, repo, iafn, role_field):
-    mod = GEO
-    ib = sym.Bindings(iafn)
-    isite = ctx.site(mod, iafn)
-    subs = [x for x in au.walk(iafn) if isinstance(x, ast.Subscript) and isinstance(x.ctx, ast.Load)
-            and isinstance(x.value, ast.Attribute) and x.value.attr == "data" and not isinstance(x.slice, ast.Slice)]
-    ok = False
-    if len(subs) == 1:
-        x = subs[0]
-        loops = [a for a in au.ancestors(x) if isinstance(a, ast.For)]
-        if len(loops) >= 2 and all(isinstance(l.target, ast.Name) for l in loops[:2]):
-            j, i = loops[0].target.id, loops[1].target.id
-            p = sym.to_poly(cc.resolve(ib, x.slice, at=x, keep=(i, j)))
-            jr, ir = _range_arg(loops[0]), _range_arg(loops[1])
-            if jr is not None and ir is not None:
-                stride = sym.to_poly(jr)
-                ok = p.coeff(j) == sym.Poly.const(1) and p.coeff(i) == stride and p.without(i).without(j).is_zero() \
-                    and isinstance(ir, ast.BinOp) and isinstance(ir.op, ast.FloorDiv) and sym.to_poly(ir.right) == stride \
-                    and isinstance(jr, ast.Attribute) and jr.attr == role_field.get("arity")
-    # slice form: group i = data[arity*i : arity*(i+1)]
-    sl = [x for x in au.walk(iafn) if isinstance(x, ast.Subscript) and isinstance(x.ctx, ast.Load)
-          and isinstance(x.value, ast.Attribute) and x.value.attr == "data" and isinstance(x.slice, ast.Slice)]
-    if not subs and len(sl) == 1 and sl[0].slice.lower is not None and sl[0].slice.upper is not None and sl[0].slice.step is None:
-        x = sl[0]
-        loops = [a for a in au.ancestors(x) if isinstance(a, ast.For)]
-        if loops and isinstance(loops[0].target, ast.Name):
-            i = loops[0].target.id
-            ir = _range_arg(loops[0])
-            lo = sym.to_poly(cc.resolve(ib, x.slice.lower, at=x, keep=(i,)))
-            hi = sym.to_poly(cc.resolve(ib, x.slice.upper, at=x, keep=(i,)))
-            stride = lo.coeff(i)
-            ok = lo.without(i).is_zero() and hi - lo == stride and not stride.is_zero() \
-                and stride.atoms() == {"⟨" + a_ + "⟩" for a_ in [au.src(n_) for n_ in au.walk(x.slice.lower)
-                                                                  if isinstance(n_, ast.Attribute) and n_.attr == role_field.get("arity")][:1]} \
-                and isinstance(ir, ast.BinOp) and isinstance(ir.op, ast.FloorDiv) and sym.to_poly(ir.right) == stride
-    ctx.check(ok, "C04-G1", isite, "geogram: import_attribute does not read value j of element i at data[arity*i + j]",
-              "values are written element-major with `arity` values per element", note="geogram: import stride = arity")
-
-
-def geogram_chunks(ctx, repo, wfn, prov, b, special, start, tfold, fold_container, ptr_names=None):
-    """Literal connectivity chunks of the exporter against the importer branches; returns the chunk names written and
-    the [ATTS] table."""
-    mod = GEO
-    chunks = chunk_writes(wfn, b)
-    atts = {}
-    for c, tag, lines in chunks:
-        if tag == "[ATTS]" and len(lines) >= 3 and line_literal(lines[1]):
-            m = fold_container(line_literal(lines[1]))
-            cnt = lines[2][0][1] if lines[2] and lines[2][0][0] == "leaf" else None
-            atts[m.name if m else line_literal(lines[1])] = (c, cnt)
-    names_written = {}
-    ptr_names = ptr_names or {}
-    n_chunks = 0
-    for c, tag, lines in chunks:
-        if tag != "[ATTR]":
-            continue
-        n_chunks += 1
-        site = ctx.site(mod, wfn, c)
-        lits = [line_literal(l) for l in lines]
-        if (start and len(lines) != max(start)) or any(x is None for x in lits):
-            ctx.fail("C04-G1", site, "geogram: connectivity chunk header is not the literal lines the importer indexes",
-                     f"header lines: {lits}")
-            continue
-        cont_w, name, typ, nbytes, arity = lits[1], _unquote(lits[2]), lits[3], lits[4], lits[5]
-        names_written[name] = (c, lines)
-        m = fold_container(cont_w)
-        match = [sp for sp in special if m is not None and sp[0] == m.name and sp[1] == name]
-        if not match and name in ptr_names and m is not None and m.name == ptr_names[name][1]:
-            # size-table chunk: the importer finds it by name and reads it as a flat list of integers (arity 1)
-            match = [(m.name, name, None, (None, 1), [])]
-        if not match:
-            near = [sp for sp in special if sp[1].split("::")[-1] == name.split("::")[-1]]
-            if name in ptr_names:
-                near = [(ptr_names[name][1], name)]
-            ctx.fail("C04-E1", site,
-                     f"geogram: chunk {name} written under {_unquote(cont_w)} matches no connectivity branch of the importer",
-                     f"the importer looks for "
-                     f"{('`' + near[0][1] + '` of Container.' + near[0][0]) if near else 'other names'}; this chunk is read back as a "
-                     f"user attribute of {m} and the connectivity it carries is lost")
-        else:
-            X, N, ifnode, asserted, kinds = match[0]
-            ctx.ok("C04-E1", site, f"geogram: chunk {name} of {X} has an importer branch")
-            try:
-                T = tfold.call("from_string", typ)
-            except (cc.Raised, cc.Unfoldable):
-                T = None
-            wantT = "Float" if "vertices" in kinds else "Int"
-            ctx.check(T is not None and T.name == wantT, "C04-E1", site,
-                      f"geogram: chunk {name} is declared with type {typ}, parsed as {T} (its values are {wantT.lower()}s)",
-                      "Chunk.__init__ converts the payload according to the declared type")
-            try:
-                bs = tfold.call("byte_size", T) if T is not None else None
-            except (cc.Raised, cc.Unfoldable):
-                bs = None
-            ctx.check(str(bs) == nbytes, "C04-E1", site,
-                      f"geogram: chunk {name} declares {nbytes} bytes per value, the type table says {bs} for {T}",
-                      "independent readers size the payload with this field")
-            if asserted is not None:
-                ctx.check(str(asserted[1]) == arity, "C04-E1", site,
-                          f"geogram: chunk {name} declares {arity} value(s) per element, the importer asserts {asserted[1]}",
-                          "the importer raises AssertionError on reload")
-        # payload
-        lp = payload_after(c)
-        if lp is None:
-            ctx.fail("C04-G1", site, f"geogram: payload loop of chunk {name} not found", "")
-            continue
-        nvals, nested, lvs, ws = values_per_iteration(lp, b)
-        ctx.check(str(nvals) == arity, "C04-G1", ctx.site(mod, wfn, lp),
-                  f"geogram: chunk {name} declares {arity} value(s) per element but {nvals} are written per element",
-                  "the importer groups the payload by the declared arity")
-        if match and match[0][4]:
-            want_kind = match[0][4][0]
-            good = bool(lvs) and all((prov.classify(lf.expr, lf.expr) or (None, None))[:2] == ("elem", want_kind) for lf in lvs)
-            ctx.check(good, "C04-G1", ctx.site(mod, wfn, lp),
-                      f"geogram: the payload of chunk {name} is not made of the "
-                      f"{'coordinates' if want_kind == 'vertices' else 'vertex indices'} of mesh.{want_kind}",
-                      f"the importer builds {want_kind} from these values; written: {[au.src(lf.expr) for lf in lvs]}",
-                      note=f"geogram: payload of {name} = elements of mesh.{want_kind}")
-        it, _ = cc.strip_enumerate(lp.iter)
-        itr = cc.resolve(b, it, at=lp)
-        is_attr_obj = isinstance(itr, ast.Call) and au.call_tail(itr) in ("get_attribute", "create_attribute")
-        dense = prov.container_kind(it) is not None or (isinstance(it, ast.Call) and au.call_tail(it) == "range")
-        ctx.check(not is_attr_obj, "C04-G1", ctx.site(mod, wfn, lp),
-                  f"geogram: the payload of chunk {name} iterates the attribute object itself",
-                  f"`for .. in {au.src(it)}`: iterating a sparse Attribute yields the keys of its non-default entries, not one value per element: the "
-                  "keys (tuples for cell facets) are written as values and int() fails on reload",
-                  note=f"geogram: payload of {name} runs over the elements")
-        if not is_attr_obj:
-            ctx.check(dense, "C04-G1", ctx.site(mod, wfn, lp),
-                      f"geogram: payload loop of chunk {name} does not run over all elements",
-                      "one group of values per element, in element order")
-    floor(ctx, "C04-E1 geogram connectivity chunks", n_chunks, 4, ctx.site(GEO, wfn))
-    return names_written, atts
-
-
-def geogram_containers(ctx, repo, wfn, member_field, quoted, fold_container):
-    mod = GEO
-    for c in [c for c in au.calls(wfn) if au.call_tail(c) == "export_attribute"]:
-        lit = [a for a in c.args if isinstance(a, ast.Constant) and isinstance(a.value, str)]
-        lp = [a for a in au.ancestors(c) if isinstance(a, ast.For)]
-        fld = None
-        if lp and isinstance(lp[0].iter, ast.Attribute) and lp[0].iter.attr == "attributes" \
-                and isinstance(lp[0].iter.value, ast.Attribute):
-            fld = lp[0].iter.value.attr
-        if not lit or fld is None:
-            ctx.fail("C04-E1", ctx.site(mod, wfn, c), "geogram: export_attribute call without a literal container / attribute loop", "")
-            continue
-        q = '"' if quoted else ""
-        m = fold_container(q + lit[0].value + q)
-        ctx.check(m is not None and member_field.get(m.name) == fld, "C04-E1", ctx.site(mod, wfn, c),
-                  f"geogram: attributes of mesh.{fld} are written under container name {lit[0].value}, which the importer maps to "
-                  f"{('mesh.' + str(member_field.get(m.name))) if m is not None else 'no container'}",
-                  f"Chunk.Container.from_string({lit[0].value!r}) is {m}: a user attribute on mesh.{fld} "
-                  f"{'makes the importer raise (container not recognised)' if m is None else 'comes back on another container'}",
-                  note=f"geogram: mesh.{fld} attributes -> {m}")
-
-
-def geogram_counts(ctx, repo, wfn, rfn, b, mesh, special, member_field, atts, fields=None):
-    mod = GEO
-    wsite = ctx.site(mod, wfn)
-    # [ATTS] layout: the count is written on the line the importer converts under its ATTS branch
-    if fields:
-        rk = [(f_, v[0]) for f_, v in fields.items() if not f_.endswith("[]") and v[1] == "int"
-              and any("ATTS" in au.src(t) for t, pol in au.guards(v[2]) if pol)]
-        for c, tag, lines in chunk_writes(wfn, b):
-            if tag == "[ATTS]":
-                wl = [k for k, ln in enumerate(lines) if ln and ln[0][0] == "leaf"]
-                ctx.check(len(rk) == 1 and wl == [rk[0][1]], "C04-H1", ctx.site(mod, wfn, c),
-                          f"geogram: an [ATTS] chunk carries its element count on line {wl}, the importer reads line "
-                          f"{[k for f_, k in rk]}", "container sizes are wrong: no / too many elements are read",
-                          note=f"geogram: [ATTS] count on line {wl}")
-    for X in sorted(member_field):
-        used = any(isinstance(x, ast.Subscript) and isinstance(x.slice, ast.Attribute) and x.slice.attr == X
-                   and isinstance(au.parent(x), ast.Call) and au.call_tail(au.parent(x)) == "range" for x in au.walk(rfn))
-        if not used:
-            continue
-        fld = member_field.get(X)
-        ent = atts.get(X)
-        if ent is None:
-            ctx.fail("C04-H1", wsite, f"geogram: no [ATTS] chunk gives the number of {fld}",
-                     f"the importer loops over container_sizes[{X}] (0 when absent): no {fld} are loaded")
-            continue
-        c, cnt = ent
-        r = cc.resolve(b, cnt.expr, at=c) if cnt is not None else None
-        ok = isinstance(r, ast.Call) and isinstance(r.func, ast.Name) and r.func.id == "len" and len(r.args) == 1 \
-            and au.src(r.args[0]) == f"{mesh}.{fld}"
-        ctx.check(ok, "C04-H1", ctx.site(mod, wfn, c),
-                  f"geogram: the [ATTS] count of {X} is `{au.src(r) if r is not None else None}`, not len({mesh}.{fld})",
-                  f"the importer reads exactly that many {fld}", note=f"geogram: [ATTS] {X} = len(mesh.{fld})")
-
-
-def _eval_size_condition(test, prov, kind, sizes):
-    """Value of an exporter condition such as `any(len(f) != 3 for f in mesh.faces)` when the rows of mesh.<kind> have
-    the given sizes; None when the expression is not about those sizes (or not understood)."""
-    if isinstance(test, ast.UnaryOp) and isinstance(test.op, ast.Not):
-        v = _eval_size_condition(test.operand, prov, kind, sizes)
-        return None if v is None else (not v)
-    if isinstance(test, ast.BoolOp):
-        vals = [_eval_size_condition(v, prov, kind, sizes) for v in test.values]
-        if isinstance(test.op, ast.And):
-            known = [v for v in vals if v is not None]        # unrelated conjuncts (hasattr, not empty) are taken as true
-            return all(known) if known else None
-        return None if any(v is None for v in vals) else any(vals)
-    if isinstance(test, ast.Call) and isinstance(test.func, ast.Name) and test.func.id in ("any", "all") and len(test.args) == 1 \
-            and isinstance(test.args[0], (ast.GeneratorExp, ast.ListComp)) and len(test.args[0].generators) == 1:
-        g = test.args[0].generators[0]
-        if prov.container_kind(g.iter) != kind or not isinstance(g.target, ast.Name):
-            return None
-        key = au.norm(ast.Call(func=ast.Name(id="len", ctx=ast.Load()), args=[ast.Name(id=g.target.id, ctx=ast.Load())], keywords=[]))
-        vals = []
-        for n_ in sizes:
-            keep = True
-            for cond in g.ifs:
-                kv = cc.eval_test(_TagSubst(key).visit(cc.clean(cond)), {"__tag": n_})
-                if kv is None:
-                    return None
-                keep = keep and bool(kv)
-            if not keep:
-                continue
-            v = cc.eval_test(_TagSubst(key).visit(cc.clean(test.args[0].elt)), {"__tag": n_})
-            if v is None:
-                return None
-            vals.append(bool(v))
-        return any(vals) if test.func.id == "any" else all(vals)
-    return None
-
-
-def _ptr_payload_ok(lp, b, prov, kind):
-    """`p = 0; for row in mesh.K: write(p); p += len(row)`: each element's first-corner index."""
-    if lp is None or prov.container_kind(cc.strip_enumerate(lp.iter)[0]) != kind:
-        return "the payload loop does not run over the elements"
-    inner, en = cc.strip_enumerate(lp.iter)
-    row = lp.target.elts[1] if en and isinstance(lp.target, ast.Tuple) else lp.target
-    if not isinstance(row, ast.Name):
-        return "row variable not found"
-    writes = [(i, st) for i, st in enumerate(lp.body) if isinstance(st, ast.Expr) and isinstance(st.value, ast.Call)
-              and au.call_tail(st.value) == "write"]
-    if len(writes) != 1 or len([c for c in au.calls(lp) if au.call_tail(c) == "write"]) != 1:
-        return "not exactly one unconditional write per element"
-    wi, wst = writes[0]
-    leaves = [p_[1] for p_ in cc.flatten(wst.value.args[0], b, wst.value) if p_[0] == "leaf"]
-    if len(leaves) != 1 or not isinstance(leaves[0].expr, ast.Name):
-        return "the value written is not the running offset variable"
-    P = leaves[0].expr.id
-    init = b.reaching(P, lp)
-    if not (isinstance(init, ast.Constant) and init.value == 0 and not isinstance(init.value, bool)):
-        return f"the running offset does not start at 0"
-    incs = [(i, st) for i, st in enumerate(lp.body) if P in [n_ for t in au.assign_targets(st) for n_ in au.assigned_names(t)]]
-    nested = [st for st in au.stmts(lp.body) if P in [n_ for t in au.assign_targets(st) for n_ in au.assigned_names(t)]]
-    if len(incs) != 1 or len(nested) != 1:
-        return "the running offset is not advanced exactly once per element"
-    ii, ist = incs[0]
-    want = sym.to_poly(ast.parse(f"len({row.id})", mode="eval").body)
-    if isinstance(ist, ast.AugAssign) and isinstance(ist.op, ast.Add):
-        delta = sym.to_poly(ist.value)
-    elif isinstance(ist, ast.Assign):
-        delta = sym.to_poly(ist.value) - sym.Poly.atom(P)
-    else:
-        return "the running offset is not advanced by an addition"
-    if delta != want:
-        return f"the running offset is advanced by `{au.src(ist)}`, not by the number of corners of the element"
-    if ii < wi:
-        return "the offset is advanced before being written (the index of the next element is written)"
-    return None
-
-
-def geogram_arity_tables(ctx, repo, wfn, rfn, wblocks, names_written, tables, prov, b):
-    mod = GEO
-    rsite = ctx.site(mod, rfn)
-    floor(ctx, "C04-E1 geogram arity tables", len(tables), 2, rsite)
-    for kind, (names, default, node, table, extra, cont) in sorted(tables.items()):
-        ctx.check(not extra and len(names) <= 1, "C04-E1", rsite,
-                  f"geogram: the size table of {kind} is also filled while reading chunk {', '.join(extra or names[1:])}",
-                  f"`{table}` must hold one entry per {kind[:-1]}, all taken from `{names[0] if names else '?'}`; an entry appended while "
-                  f"reading another chunk leaves that chunk's own table one short (IndexError on its last element) and corrupts this one",
-                  note=f"geogram: sizes of {kind} come from one chunk")
-        wbs = [wb for wb in wblocks if wb.kind == kind]
-        if not wbs or not names or default is None:
-            ctx.fail("C04-E1", rsite, f"geogram: arity recovery for {kind} not found",
-                     f"importer table {table}: chunk names {names}, default {default}; exporter blocks {len(wbs)}")
-            continue
-        restricted = all(wb.guard_n == default for wb in wbs)
-        hit = [n_ for n_ in names if n_ in names_written]
-        if not hit:
-            ctx.check(restricted, "C04-E1", ctx.site(mod, wfn, wbs[0].write),
-                      f"geogram: {kind} of any size are written but the `{names[0]}` chunk giving their sizes is never written",
-                      f"without that chunk the importer assumes {default} vertices per {kind[:-1]}: a mesh with other "
-                      f"{kind} (quads / polygons, hexahedra / prisms) reloads as {default}-vertex {kind} cut out of the corner list",
-                      note=f"geogram: sizes of {kind} recoverable")
-            continue
-        name = hit[0]
-        c, lines = names_written[name]
-        site = ctx.site(mod, wfn, c)
-        # (i) written whenever the importer's default would be wrong
-        sizes_dom = [default, default + 1, default + 2]
-        cases = [[x] for x in sizes_dom] + [[x, y] for x in sizes_dom for y in sizes_dom]
-        bad_case, unknown = None, False
-        for test, pol in au.guards(c):
-            if not any(isinstance(x, ast.Call) and isinstance(x.func, ast.Name) and x.func.id in ("any", "all", "len", "max", "min", "set")
-                       and prov.mesh in au.names(x) for x in au.walk(test)) or \
-                    not any(isinstance(x, ast.Call) and isinstance(x.func, ast.Name) and x.func.id in ("any", "all") for x in au.walk(test)):
-                continue
-            for sizes in cases:
-                v = _eval_size_condition(test, prov, kind, sizes)
-                if v is None:
-                    unknown = True
-                    break
-                runs = bool(v) == pol
-                if any(x != default for x in sizes) and not runs and bad_case is None:
-                    bad_case = sizes
-        if unknown:
-            ctx.fail("C04-E1", site, f"geogram: condition under which the `{name}` chunk is written not understood", "")
-        else:
-            ctx.check(bad_case is None, "C04-E1", site,
-                      f"geogram: the `{name}` chunk is not written for every mesh whose {kind} do not all have {default} vertices",
-                      f"e.g. {kind} of sizes {bad_case}: the chunk is skipped and the importer assumes {default} vertices per "
-                      f"{kind[:-1]}", note=f"geogram: `{name}` written whenever some {kind[:-1]} has not {default} vertices")
-        # (ii) payload = index of the first corner of each element
-        err = _ptr_payload_ok(payload_after(c), b, prov, kind)
-        ctx.check(err is None, "C04-G1", site,
-                  f"geogram: the payload of chunk {name} is not the index of the first corner of each {kind[:-1]} "
-                  f"(0, then advanced by its number of corners after being written)",
-                  f"{err}; the importer takes size i = ptr[i+1] - ptr[i] and reads the corners of element i from ptr[i]",
-                  note=f"geogram: `{name}` payload is the running corner offset")
-
-
-def geogram_rows(ctx, repo, rfn, cfn, rblocks, fields):
-    mod = GEO
-    rb_b = sym.Bindings(rfn)
-    for rb in rblocks:
-        e = rb.node.args[0]
-        for _ in range(3):
-            if isinstance(e, ast.Name):
-                e = rb_b.reaching(e.id, rb.node) or e
-            if isinstance(e, ast.Call) and au.call_tail(e) in WRAPPERS and len(e.args) == 1:
-                e = e.args[0]
-        site = ctx.site(mod, rfn, rb.node)
-        loops = [a for a in au.ancestors(rb.node) if isinstance(a, ast.For)]
-        i = loops[0].target.id if loops and isinstance(loops[0].target, ast.Name) else None
-        if isinstance(e, (ast.List, ast.Tuple)) and i:
-            k = len(e.elts)
-            ok = True
-            for r_, x in enumerate(e.elts):
-                if not (isinstance(x, ast.Subscript) and isinstance(x.value, ast.Attribute) and x.value.attr == "data"):
-                    ok = False
-                    break
-                p = sym.to_poly(x.slice)
-                ok = ok and p.coeff(i) == sym.Poly.const(k) and p.without(i).is_const() and p.without(i).const_value() == r_
-            ctx.check(ok, "C04-G1", site, f"geogram: {rb.kind} row is not (data[{k}*i], .., data[{k}*i+{k - 1}])",
-                      f"the exporter writes {k} values per element, element after element",
-                      note=f"geogram: {rb.kind} row read with stride {k}")
-        elif isinstance(e, (ast.ListComp, ast.GeneratorExp)) and len(e.generators) == 1 \
-                and isinstance(e.generators[0].target, ast.Name):
-            j = e.generators[0].target.id
-            ok = isinstance(e.elt, ast.Subscript) and isinstance(e.elt.value, ast.Attribute) and e.elt.value.attr == "data"
-            if ok:
-                p = sym.to_poly(e.elt.slice)
-                ok = p.coeff(j) == sym.Poly.const(1) and not e.generators[0].ifs
-            ctx.check(ok, "C04-V1", site, f"geogram: corners of a {rb.kind[:-1]} are not read as data[ptr + 0 .. ptr + n-1] in order",
-                      "the exporter writes the corners of each element consecutively in stored order",
-                      note=f"geogram: {rb.kind} corners read consecutively in order")
-        else:
-            ctx.fail("C04-G1", site, f"geogram: {rb.kind} row construction not found", "")
-    pc = payload_conversions(fields)
-    for T, rule, okset in (("Int", "C04-B1", {"int"}), ("Float", "C04-L1", FLOAT_OK)):
-        st = pc.get(T + ":stmt")
-        if st is None or not isinstance(st.value, (ast.ListComp, ast.GeneratorExp)):
-            ctx.fail(rule, ctx.site(mod, cfn), f"geogram: conversion of the payload of {T} chunks not found",
-                     f"Chunk.__init__ must turn the tokens of a {T} chunk into numbers")
-            continue
-        cv, off = _conv_of(st.value.elt)
-        ctx.check(cv in okset and off == 0, rule, ctx.site(mod, cfn, st),
-                  f"geogram: the payload of {T} chunks is parsed as `{pc[T]}`",
-                  "geogram indices are 0-based integers" if T == "Int" else "coordinates must be recovered bit-exactly",
-                  note=f"geogram: {T} payload parsed with {cv}")
-
-
-def run_geogram(ctx, repo):
-    fmt, mod = "geogram", GEO
-    wfn, rfn = repo.func(mod, "export_geogram_ascii"), repo.func(mod, "import_geogram_ascii")
-    afn, iafn = repo.func(mod, "export_attribute"), repo.func(mod, "import_attribute")
-    prov, b, wblocks = writer_blocks(fmt, wfn)
-    rblocks = reader_blocks(repo, fmt, mod, rfn)
-    cfold = cc.Folder(repo.cls(mod, "Chunk.Container"))
-    tfold = cc.Folder(repo.cls(ATTR, "_BaseAttribute.Type"))
-    ctx.site(mod, repo.func(mod, "Chunk.Container.from_string"))
-
-    def fold_container(written):
-        try:
-            return cfold.call("from_string", written)
-        except (cc.Raised, cc.Unfoldable):
-            return None
-    cfn, fields, start, special, member_field, role_field = geogram_reader_tables(ctx, repo, rfn)
-    ctx.site(mod, cfn)
-    floor(ctx, "C04-E1 geogram importer connectivity branches", len(special), 4, ctx.site(mod, rfn))
-    floor(ctx, "C04-E1 geogram container table", len(member_field), 4, ctx.site(mod, wfn))
-    floor(ctx, "C04-E1 geogram exporter row blocks", len(wblocks), 3, ctx.site(mod, wfn))
-    floor(ctx, "C04-E1 geogram importer row blocks", len(rblocks), 4, ctx.site(mod, rfn))
-    roles, cont_param = g1_header_layout(ctx, repo, wfn, afn, fields, start, role_field)
-    g1_import_stride(ctx, repo, iafn, role_field)
-    g1_import_store(ctx, repo, iafn, role_field)
-    tables = arity_tables(repo, rfn)
-    ptr_names = {n_: (kind, t[5]) for kind, t in tables.items() for n_ in t[0]}
-    names_written, atts = geogram_chunks(ctx, repo, wfn, prov, b, special, start, tfold, fold_container, ptr_names)
-    quoted = bool(roles and cont_param and roles.get("param:" + cont_param, (0, False))[1])
-    geogram_containers(ctx, repo, wfn, member_field, quoted, fold_container)
-    geogram_counts(ctx, repo, wfn, rfn, b, prov.mesh, special, member_field, atts, fields)
-    geogram_arity_tables(ctx, repo, wfn, rfn, wblocks, names_written, tables, prov, b)
-    g1_reader_ptr_tables(ctx, repo, rfn, tables)
-    g1_attribute_loops(ctx, repo, wfn, names_written)
-    geogram_rows(ctx, repo, rfn, cfn, rblocks, fields)
-    floor(ctx, "C04-X1 geogram exporter preconditions", geogram_precondition(ctx, repo, wfn), 1, ctx.site(mod, wfn))
-    nb = b1_writer_offsets(ctx, fmt, mod, wfn, prov, b)
-    floor(ctx, "C04-B1 geogram index sites", nb, 2, ctx.site(mod, wfn))
-    nl = l1_float_format(ctx, fmt, mod, wfn, prov, b)
-    floor(ctx, "C04-L1 geogram coordinate sites", nl, 1, ctx.site(mod, wfn))
-    nv = v1_writer_order(ctx, fmt, mod, wfn, prov, b)
-    nv += v1_reader_order(ctx, fmt, mod, [], rblocks, wfn)
-    floor(ctx, "C04-V1 geogram rows", nv, 1, ctx.site(mod, wfn))
-
-
-def geogram_precondition(ctx, repo, wfn):
-    """An attribute the exporter reads unconditionally (`mesh.cell_faces.get_attribute("adjacent_cell")`) must be the one
-    save() has the connectivity create before exporting a volume mesh."""
-    mod = GEO
-    need = []
-    for c in au.calls(wfn):
-        if au.call_tail(c) == "get_attribute" and c.args and isinstance(c.args[0], ast.Constant) \
-                and isinstance(c.func.value, ast.Attribute):
-            nm, fld = c.args[0].value, c.func.value.attr
-            guarded = any(nm in au.src(t) and "has_attribute" in au.src(t) for t, pol in au.guards(c) if pol)
-            if not guarded:
-                need.append((nm, fld, c))
-    save = repo.func("mesh.mesh", "save")
-    ssite = ctx.site("mesh.mesh", save)
-    made = set()
-    for c in au.calls(save):
-        ch = au.chain(c.func)
-        if ch and len(ch) >= 3 and ch[-2] == "connectivity" and any("geogram" in au.src(t) for t, pol in au.guards(c) if pol):
-            q = "VolumeMesh._Connectivity." + ch[-1]
-            if repo.has_func("mesh.datatypes.volume", q):
-                m = repo.func("mesh.datatypes.volume", q)
-                ctx.site("mesh.datatypes.volume", m)
-                for k in au.calls(m):
-                    if au.call_tail(k) == "create_attribute" and k.args and isinstance(k.args[0], ast.Constant) \
-                            and isinstance(k.func.value, ast.Attribute):
-                        made.add((k.args[0].value, k.func.value.attr))
-    # the preparing call runs for every (volume mesh, geogram file) and for no other mesh class
-    for c in au.calls(save):
-        ch = au.chain(c.func)
-        if not (ch and len(ch) >= 3 and ch[-2] == "connectivity"):
-            continue
-
-        def ev(test, V, G):
-            if isinstance(test, ast.BoolOp):
-                vals = [ev(v, V, G) for v in test.values]
-                return _and3(vals) if isinstance(test.op, ast.And) else _or3(vals)
-            if isinstance(test, ast.UnaryOp) and isinstance(test.op, ast.Not):
-                v = ev(test.operand, V, G)
-                return None if v is None else (not v)
-            if isinstance(test, ast.Call) and au.call_tail(test) == "isinstance" and len(test.args) == 2 \
-                    and au.src(test.args[1]).endswith("VolumeMesh"):
-                return V
-            if isinstance(test, ast.Compare) and len(test.ops) == 1 and isinstance(test.ops[0], (ast.In, ast.NotIn)) \
-                    and isinstance(test.left, ast.Constant) and isinstance(test.left.value, str) and "geogram" in test.left.value:
-                return G if isinstance(test.ops[0], ast.In) else (not G)
-            if isinstance(test, ast.Call) and au.call_tail(test) in ("endswith",) and test.args \
-                    and isinstance(test.args[0], ast.Constant) and "geogram" in str(test.args[0].value):
-                return G
-            return None
-        def runs(V, G):
-            return _and3([(lambda v, pol: None if v is None else (v == pol))(ev(t, V, G), pol) for t, pol in au.guards(c)] or [True])
-        ctx.check(runs(True, True) is not False and runs(False, True) is False and runs(False, False) is False, "C04-X1",
-                  ctx.site("mesh.mesh", save, c),
-                  "save(): the cell adjacency needed by the geogram exporter is not prepared exactly for volume meshes",
-                  f"guard evaluates to {runs(True, True)} for (VolumeMesh, .geogram_ascii) and {runs(False, True)} for another mesh "
-                  f"class: the export of a volume mesh raises on the missing attribute, or a surface mesh is asked for a method "
-                  f"it does not have", note="save(): adjacency prepared iff VolumeMesh and geogram file")
-    # ignore_elements: a container is emptied only when its kind was named by the caller, together with its corner containers
-    ps = au.params(save)
-    ig = ps[2] if len(ps) > 2 else None
-    fields = []
-    if repo.has_func(MESHDATA, "RawMeshData.__init__"):
-        for st in au.stmts(repo.func(MESHDATA, "RawMeshData.__init__").body):
-            for t in au.assign_targets(st):
-                if au.is_self_attr(t) and not t.attr.startswith("_"):
-                    fields.append(t.attr)
-    cleared = {}
-    for c in au.calls(save):
-        if au.call_tail(c) == "clear" and isinstance(c.func.value, ast.Attribute) and ig:
-            cont = c.func.value.attr
-            keys = []
-            for t, pol in au.guards(c):
-                if isinstance(t, ast.Compare) and len(t.ops) == 1 and isinstance(t.comparators[0], ast.Name) \
-                        and t.comparators[0].id == ig and isinstance(t.left, ast.Constant):
-                    keys.append((t.left.value, isinstance(t.ops[0], ast.In) == pol))
-            key = keys[0] if keys else (None, False)
-            ok = key[1] and isinstance(key[0], str) and (cont == key[0] or cont.startswith(key[0][:-1] + "_"))
-            ctx.check(ok, "C04-X1", ctx.site("mesh.mesh", save, c),
-                      f"save(): mesh.{cont} is emptied under a condition that is not `'{cont.split('_')[0] + ('s' if '_' in cont else '')}' in {ig}`",
-                      f"guard key {key}: elements the caller did not ask to ignore are missing from the file",
-                      note=f"save(): {cont} cleared only when '{key[0]}' is ignored")
-            if ok:
-                cleared.setdefault(key[0], set()).add(cont)
-    for key, got in sorted(cleared.items()):
-        want = {f_ for f_ in fields if f_ == key or f_.startswith(key[:-1] + "_")}
-        ctx.check(want <= got, "C04-X1", ssite,
-                  f"save(): ignoring '{key}' leaves {sorted(want - got)} filled",
-                  f"the exporters write corner / facet containers of elements that are no longer in the file",
-                  note=f"save(): ignoring '{key}' clears {sorted(got)}")
-    for nm, fld, c in need:
-        ctx.check((nm, fld) in made, "C04-X1", ctx.site(mod, wfn, c),
-                  f"geogram: the exporter reads mesh.{fld} attribute '{nm}' unconditionally but save() does not have it created",
-                  f"save() prepares {sorted(made)} before a geogram export of a volume mesh; a missing attribute makes every "
-                  f"such save raise", note=f"geogram: save() creates {fld}.{nm} before the export reads it")
-    return len(need)
-
-
-# =========================================================================== C04-C1 emission conditions
-# element kinds each format can express (frozen from the format definitions)
-VOCAB = {"obj": ("vertices", "edges", "faces"), "medit": ("vertices", "edges", "faces", "cells"),
-         "geogram": ("vertices", "edges", "faces", "cells"), "off": ("vertices", "faces"), "tet": ("vertices", "cells"),
-         "xyz": ("vertices",)}
-MESHDATA = "mesh.mesh_data"
-
-
-def regeneration_model(ctx, repo):
-    """What `RawMeshData.prepare()` rebuilds on load: {'edges': switch name, 'faces': switch name} (config attributes
-    guarding the completion calls) and the name of the attribute flagging the edges declared before completion."""
-    fn = repo.func(MESHDATA, "RawMeshData.prepare")
-    site = ctx.site(MESHDATA, fn)
-    sw = {}
-    for c in au.calls(fn):
-        t = au.call_tail(c)
-        for kind, callee in (("edges", "_complete_edges_from_faces"), ("faces", "_complete_faces_from_cells")):
-            if t == callee:
-                gs = [(g, pol) for g, pol in au.guards(c) if "_prepared" not in au.src(g)]
-                if len(gs) == 1 and gs[0][1] and isinstance(gs[0][0], ast.Attribute) and isinstance(gs[0][0].value, ast.Name):
-                    sw[kind] = gs[0][0].attr
-    flag = None
-    if repo.has_func(MESHDATA, "RawMeshData._complete_edges_from_faces"):
-        cf = repo.func(MESHDATA, "RawMeshData._complete_edges_from_faces")
-        for c in au.calls(cf):
-            if au.call_tail(c) == "create_attribute" and c.args and isinstance(c.args[0], ast.Constant) \
-                    and isinstance(c.func.value, ast.Attribute) and c.func.value.attr == "edges":
-                flag = c.args[0].value
-        # completion is skipped when there is no face: the flag exists only on meshes of dimension >= 2
-        early = any(isinstance(st, ast.If) and "faces.empty()" in au.src(st.test) and any(isinstance(x, ast.Return) for x in st.body)
-                    for st in cf.body)
-    else:
-        early = False
-    ok = set(sw) == {"edges", "faces"} and flag is not None and early
-    ctx.check(ok, "C04-C1", site,
-              "prepare(): completion of edges from faces / faces from cells under one config switch each, declared edges flagged, "
-              "not found", f"switches {sw}, flag attribute {flag}, no-face early exit {early}: the emission conditions of the "
-              f"exporters cannot be related to what a load regenerates",
-              note=f"load regenerates edges under config.{sw.get('edges')}, faces under config.{sw.get('faces')}; declared edges "
-                   f"flagged '{flag}'")
-    return (sw, flag) if ok else None
-
-
-class _State:
-    def __init__(self, D, CE, CF, kind):
-        self.D, self.CE, self.CF, self.kind = D, CE, CF, kind
-        self.H = D >= 2 and CE           # the flag attribute exists iff edges were completed from faces
-
-    def nonempty(self, k):
-        if k == self.kind:
-            return True
-        if k == "vertices":
-            return True
-        if k == "edges":
-            return True if self.D == 1 else (False if self.D == 0 else None)
-        if k == "faces":
-            return True if self.D == 2 else (False if self.D < 2 else (True if self.CF else None))
-        if k == "cells":
-            return self.D == 3
-        return None
-
-    def __str__(self):
-        return f"dimensionality {self.D}, complete_edges_from_faces={self.CE}, complete_faces_from_cells={self.CF}"
-
-
-def _and3(vals):
-    if any(v is False for v in vals):
-        return False
-    return None if any(v is None for v in vals) else True
-
-
-def _or3(vals):
-    if any(v is True for v in vals):
+    if n >= at_least:
+        ctx.ok(rule, site, f"{what}: {n} site(s)")
         return True
-    return None if any(v is None for v in vals) else False
-
-
-def eval_emission(test, st, prov, b, model, at, depth=0):
-    """Three-valued value (True / False / None = does not depend on the modelled state) of an exporter condition in
-    mesh state `st`."""
-    sw, flag = model
-    mesh = prov.mesh
-    if depth > 6:
-        return None
-    if isinstance(test, ast.Constant):
-        return bool(test.value)
-    if isinstance(test, ast.BoolOp):
-        vals = [eval_emission(v, st, prov, b, model, at, depth + 1) for v in test.values]
-        return _and3(vals) if isinstance(test.op, ast.And) else _or3(vals)
-    if isinstance(test, ast.UnaryOp) and isinstance(test.op, ast.Not):
-        v = eval_emission(test.operand, st, prov, b, model, at, depth + 1)
-        return None if v is None else (not v)
-    if isinstance(test, ast.Name):
-        d = b.reaching(test.id, at)
-        return eval_emission(d, st, prov, b, model, getattr(b, "_last_def_stmt", at), depth + 1) if d is not None else None
-    if isinstance(test, ast.Attribute) and isinstance(test.value, ast.Name) and test.value.id != mesh:
-        # <config module>.<switch>
-        if test.attr == sw["edges"]:
-            return st.CE
-        if test.attr == sw["faces"]:
-            return st.CF
-        if test.attr.startswith("export"):
-            return True                  # explicit export switch: the requirement is about the exporting configuration
-        return None
-    if isinstance(test, ast.Call):
-        t = au.call_tail(test)
-        if t == "hasattr" and len(test.args) == 2 and isinstance(test.args[0], ast.Name) and test.args[0].id == mesh \
-                and isinstance(test.args[1], ast.Constant) and test.args[1].value in cc.KINDS:
-            return True
-        if t == "empty" and isinstance(test.func, ast.Attribute) and prov.container_kind(test.func.value) in cc.KINDS:
-            v = st.nonempty(prov.container_kind(test.func.value))
-            return None if v is None else (not v)
-        if t == "has_attribute" and test.args and isinstance(test.args[0], ast.Constant) \
-                and isinstance(test.func, ast.Attribute) and prov.container_kind(test.func.value) == "edges":
-            return st.H if test.args[0].value == flag else None
-        return None
-    if isinstance(test, ast.Compare):
-        def val(x):
-            if isinstance(x, ast.Attribute) and x.attr == "dimensionality" and isinstance(x.value, ast.Name) and x.value.id == mesh:
-                return st.D
-            if isinstance(x, ast.Call) and isinstance(x.func, ast.Name) and x.func.id == "len" and len(x.args) == 1 \
-                    and prov.container_kind(x.args[0]) in cc.KINDS:
-                v = st.nonempty(prov.container_kind(x.args[0]))
-                return None if v is None else ("len", v)
-            if isinstance(x, ast.Name):
-                d = b.reaching(x.id, at)
-                return val(d) if d is not None else None
-            c = au.const(x)
-            return c if isinstance(c, (int, float)) and not isinstance(c, bool) else None
-        vals = [val(test.left)] + [val(c) for c in test.comparators]
-        if any(v is None for v in vals):
-            return None
-        out = True
-        for (l, r), op in zip(zip(vals, vals[1:]), test.ops):
-            if isinstance(l, tuple) or isinstance(r, tuple):
-                # len(container) against 0 / 1
-                if isinstance(l, tuple) and r in (0, 1) and isinstance(op, (ast.Gt, ast.NotEq, ast.GtE, ast.Eq, ast.Lt, ast.LtE)):
-                    ne = l[1]
-                    res = {ast.Gt: ne if r == 0 else None, ast.NotEq: ne if r == 0 else None, ast.GtE: ne if r == 1 else (True if r == 0 else None),
-                           ast.Eq: (not ne) if r == 0 else None, ast.Lt: (not ne) if r == 1 else None, ast.LtE: (not ne) if r == 0 else None}[type(op)]
-                    if res is None:
-                        return None
-                    out = out and res
-                    continue
-                return None
-            f = {ast.Eq: lambda a_, b_: a_ == b_, ast.NotEq: lambda a_, b_: a_ != b_, ast.Lt: lambda a_, b_: a_ < b_,
-                 ast.LtE: lambda a_, b_: a_ <= b_, ast.Gt: lambda a_, b_: a_ > b_, ast.GtE: lambda a_, b_: a_ >= b_}.get(type(op))
-            if f is None:
-                return None
-            out = out and f(l, r)
-        return out
-    return None
-
-
-def required_level(kind, st):
-    """What a save must put in the file for a load (under the same configuration) to give the elements back:
-    'all' rows of the container, the 'declared' edges only (the others are face sides, regenerated), or None."""
-    if kind == "vertices":
-        return "all"
-    if kind == "edges":
-        if st.D == 0:
-            return None
-        if st.D == 1 or not st.CE:
-            return "all"
-        return "declared"
-    if kind == "faces":
-        if st.D < 2:
-            return None
-        return "all" if (st.D == 2 or not st.CF) else None
-    if kind == "cells":
-        return "all" if st.D == 3 else None
-    return None
-
-
-def c1_emission(ctx, repo, fmt, model):
-    mod = IOMOD[fmt]
-    wfn = repo.func(mod, EXPORT[fmt])
-    site = ctx.site(mod, wfn)
-    prov, b, wblocks = writer_blocks(fmt, wfn)
-    sw, flag = model
-    n = 0
-    for kind in VOCAB[fmt]:
-        blocks = [wb for wb in wblocks if wb.kind == kind]
-        if fmt == "geogram" and kind == "vertices":
-            # coordinates are written from `for i in range(len(mesh.vertices))`: the guards of that loop
-            blocks = [WBlock(kind=kind, loop=lp, via="loop", other_guards=[], write=lp) for lp in au.stmts(wfn.body)
-                      if isinstance(lp, ast.For) and any(isinstance(x, ast.Subscript) and prov.container_kind(x.value) == "vertices"
-                                                          for x in au.walk(lp))][:1]
-        n += 1
-        if not blocks:
-            ctx.fail("C04-C1", site, f"{fmt}: no loop writes the {kind} of the mesh",
-                     f"the {fmt} format can express {kind}; a saved mesh reloads without them")
-            continue
-        bad = None
-        for D in (0, 1, 2, 3):
-            for CE in (True, False):
-                for CF in (True, False):
-                    st = _State(D, CE, CF, kind)
-                    need = required_level(kind, st)
-                    if need is None or bad is not None:
-                        continue
-                    got = None
-                    for wb in blocks:
-                        runs = _and3([(lambda v, pol: None if v is None else (v == pol))(
-                            eval_emission(t, st, prov, b, model, wb.loop), pol) for t, pol in au.guards(wb.loop)] or [True])
-                        if runs is False:
-                            continue
-                        level = "all"
-                        if wb.via == "index" or wb.other_guards:
-                            it = cc.resolve(b, wb.loop.iter, at=wb.loop)
-                            declared = isinstance(it, ast.Call) and au.call_tail(it) == "get_attribute" and it.args \
-                                and isinstance(it.args[0], ast.Constant) and it.args[0].value == flag and not wb.other_guards
-                            level = "declared" if declared else "some"
-                        if level == "all" or (level == "declared" and need == "declared"):
-                            got = level
-                            break
-                    if got is None:
-                        bad = st
-        ctx.check(bad is None, "C04-C1", site,
-                  f"{fmt}: the conditions under which {kind} are written do not cover every mesh whose {kind} a load cannot regenerate",
-                  f"with {bad}: a load regenerates edges only under config.{sw['edges']} (as face sides) and faces only under "
-                  f"config.{sw['faces']} (as cell sides), so {'every edge' if bad and required_level(kind, bad) == 'all' else 'the declared ' + kind} "
-                  f"must be in the file, but no block writing them runs in that state: they vanish on reload",
-                  note=f"{fmt}: {kind} written in every state where a load would not rebuild them")
-    return n
+    ctx.undecided(rule, site, f"{what}: not recognised", f"{n} site(s) recognised, at least {at_least} expected")
+    return False
 
 
 def run_formats(ctx):
     from ..core import AnalysisError
+    from . import hc_text, hc_geo
     repo = ctx.repo
-    for fmt, fn in (("medit", run_medit), ("obj", run_obj), ("off", run_off), ("tet", run_tet), ("xyz", run_xyz),
-                    ("geogram", run_geogram)):
+    codecs = {}
+    geo = None
+    for fmt, fn in (("medit", hc_text.run_medit), ("obj", hc_text.run_obj), ("off", hc_text.run_off), ("tet", hc_text.run_tet),
+                    ("xyz", hc_text.run_xyz), ("geogram", hc_geo.run_geogram)):
         try:
-            fn(ctx, repo)
+            codecs[fmt] = fn(ctx)
+            if fmt == "geogram":
+                geo = codecs[fmt]
+                codecs[fmt] = geo.cx
         except AnalysisError:
             raise
-        except (IndexError, KeyError, AttributeError, TypeError, ValueError) as ex:
+        except (IndexError, KeyError, AttributeError, TypeError, ValueError, RecursionError) as ex:
             # the anchored functions exist (repo.func succeeded) but the extraction met a shape it does not model
-            ctx.fail("C04-E1", ctx.site(IOMOD[fmt], repo.func(IOMOD[fmt], EXPORT[fmt])),
-                     f"{fmt}: codec is no longer in a form whose reader/writer tables can be extracted",
-                     f"extraction stopped with {type(ex).__name__}: {ex}")
-    model = regeneration_model(ctx, repo)
+            ctx.undecided("C04-E1", ctx.site(IOMOD[fmt], repo.func(IOMOD[fmt], EXPORT[fmt])),
+                          f"{fmt}: codec is not in a form whose reader/writer tables can be extracted",
+                          f"extraction stopped with {type(ex).__name__}")
+    model = hc_text.regeneration_model(ctx)
     if model is not None:
         for fmt in ("obj", "medit", "geogram", "off", "tet", "xyz"):
-            c1_emission(ctx, repo, fmt, model)
+            try:
+                cx = codecs.get(fmt) if isinstance(codecs.get(fmt), hc_text.Codec) else hc_text.Codec(ctx, fmt)
+                hc_text.c1_emission(cx, model)
+            except AnalysisError:
+                raise
+            except (IndexError, KeyError, AttributeError, TypeError, ValueError, RecursionError) as ex:
+                ctx.undecided("C04-C1", ctx.site(IOMOD[fmt], repo.func(IOMOD[fmt], EXPORT[fmt])),
+                              f"{fmt}: emission conditions of the exporter could not be extracted", type(ex).__name__)
+    return geo
